@@ -1,4 +1,9 @@
 import GaeaVerif.Lemmas.MergePlan
+import GaeaVerif.Lemmas.MergeTopKNodup
+import GaeaVerif.Lemmas.MergeLead
+import GaeaVerif.Lemmas.MergeKeyDec
+import GaeaVerif.Model.MergeUnion
+import GaeaVerif.Model.MergeJoin
 /-
   C02 — a cross-shard SELECT returns what one database holding all shards would
   return.
@@ -14,7 +19,11 @@ import GaeaVerif.Lemmas.MergePlan
     merge_group                   GROUP BY under the injective map key, ORDER BY, LIMIT at the proxy
     merge_plain_distinct          SELECT DISTINCT of plain columns
     zero_route, single_table      statements routed to no / to one sub-table
+    merge_group_limit             GROUP BY with the per-table LIMIT kept (ORDER BY starts with the GROUP BY columns)
+    merge_aggregate_any, merge_group_distinct   SELECT DISTINCT over aggregate functions / over GROUP BY
     C02_select_correct_partial    the assembled theorem for the decidable class `Supported`
+    union_correct                 UNION [ALL | DISTINCT] of such statements
+    join_linked_correct, join_global_correct   such statements over a join with a linked child / a global table
     keyInj_of_typed, rowKeyInj_of_typed   its key-injectivity hypotheses hold for BIGINT / character columns
     agg_homomorphism, group_merge, mapkey_injective, topk_merge_rows   the core lemmas under their names
 
@@ -1064,6 +1073,1733 @@ theorem merge_plain_distinct (inv : PlanInv schema p cq cq') (h : cq.aggregated 
 
 end
 
+/-! ### GROUP BY with the per-table LIMIT kept -/
+
+theorem chunksOf_eq (cq' : CQ) (g : List Nat) (T : List Row) :
+    chunksOf cq' g T = (groupRows g T).mergeSort fun a b => leOut cq'.dirs (outOf cq' a) (outOf cq' b) := by
+  simp only [chunksOf]
+  split
+  · rename_i he
+    have : cq'.dirs = [] := by simp [CQ.dirs, List.isEmpty_iff.mp he]
+    rw [mergeSort_true]
+    intro a b
+    simp [leOut, this, leKey]
+  · rfl
+
+/-- the rows a sub-table returns for a GROUP BY statement, before its LIMIT: one per group, sorted -/
+theorem sorted_group (cq' : CQ) (g : List Nat) (hg : cq'.group = some g) (hd : cq'.distinct = false) (T : List Row) :
+    (evalSorted cq' T).map (·.vis) = (chunksOf cq' g T).map (fullRow cq'.items) := by
+  simp only [evalSorted, evalPre_group cq' g hg hd, chunksOf]
+  split
+  · simp only [List.map_map]; rfl
+  · rw [← List.map_mergeSort (r := fun a b => leOut cq'.dirs (outOf cq' a) (outOf cq' b))
+      (s := leOut cq'.dirs) (f := outOf cq') (fun a _ b _ => rfl)]
+    simp only [List.map_map]; rfl
+
+theorem shard_group_limit (cq' : CQ) (g : List Nat) (hg : cq'.group = some g) (hd : cq'.distinct = false)
+    (n : Nat) (hlim : cq'.limit = some (0, n)) (T : List Row) :
+    (evalCQ cq' T).map (·.vis) = ((chunksOf cq' g T).take n).map (fullRow cq'.items) := by
+  simp only [evalCQ, hlim, ← window_map, sorted_group cq' g hg hd]
+  simp [window, List.map_take]
+
+theorem groupRows_keys (g : List Nat) (T : List Row) : (groupRows g T).map (kcOf g) = dedup (T.map (groupKey g)) := by
+  simp only [groupRows, List.map_map]
+  conv => rhs; rw [← List.map_id (dedup (T.map (groupKey g)))]
+  apply List.map_congr_left
+  intro k hk
+  exact kcOf_filter g T k ((mem_dedup _ _).mp hk)
+
+/-- a group of a sub-table: a first row carrying the key, all rows with that key -/
+theorem chunk_head (g : List Nat) (T : List Row) (c : List Row) (hc : c ∈ groupRows g T) :
+    ∃ r rs, c = r :: rs ∧ groupKey g r = kcOf g c ∧ ∀ x ∈ c, groupKey g x = kcOf g c := by
+  obtain ⟨hne, hfil, _⟩ := groupRows_mem g T c hc
+  have hall : ∀ x ∈ c, groupKey g x = kcOf g c := by
+    intro x hx
+    rw [hfil] at hx
+    simpa using (List.mem_filter.mp hx).2
+  cases c with
+  | nil => exact absurd rfl hne
+  | cons r rs => exact ⟨r, rs, rfl, hall r (by simp), hall⟩
+
+section
+variable {schema : List Ty} {p : Plan} {cq cq' : CQ}
+
+theorem leFull_fullRow (inv : PlanInv schema p cq cq') (X Y : List Row) :
+    leFull cq.dirs (sortCols p cq') (fullRow cq'.items X) (fullRow cq'.items Y) =
+      leKey (cq.keys.map (·.2)) (cq.keys.map fun k => evalItem X k.1) (cq.keys.map fun k => evalItem Y k.1) := by
+  simp only [leFull, inv_keyAt inv, CQ.dirs]
+
+theorem filter_take_of_nodup {α β : Type} [DecidableEq β] (f : α → β) (C : List α) (n : Nat) (k : β)
+    (hnd : (C.map f).Nodup) (hk : k ∈ C.map f → k ∈ (C.map f).take n) :
+    (C.take n).filter (fun x => f x = k) = C.filter (fun x => f x = k) := by
+  conv => rhs; rw [← List.take_append_drop n C]
+  rw [List.filter_append]
+  have : (C.drop n).filter (fun x => decide (f x = k)) = [] := by
+    apply List.filter_eq_nil_iff.mpr
+    intro x hx hfx
+    simp only [decide_eq_true_eq] at hfx
+    have hkC : k ∈ C.map f := List.mem_map.mpr ⟨x, List.mem_of_mem_drop hx, hfx⟩
+    have hkT := hk hkC
+    rw [← List.take_append_drop n C, List.map_append, List.nodup_append] at hnd
+    rw [← List.map_take] at hkT
+    exact hnd.2.2 k hkT k (List.mem_map.mpr ⟨x, hx, hfx⟩) rfl
+  rw [this, List.append_nil]
+
+theorem mem_window_take {α : Type} (l : List α) (o c : Nat) (x : α) (h : x ∈ (l.drop o).take c) : x ∈ l.take (o + c) := by
+  rw [← take_drop_take] at h
+  exact List.mem_of_mem_drop (List.mem_of_mem_take h)
+
+/-- **GROUP BY with the per-table LIMIT kept** (ORDER BY starts with the GROUP BY
+    columns and names all of them, so that the order of the groups is that of
+    their keys): every sub-table returns its first `offset+count` groups; the
+    groups among the first `offset+count` of the union are among the first
+    `offset+count` of every sub-table that holds them, so their merged rows are
+    complete, and they sort before every other (possibly incomplete) candidate. -/
+theorem merge_group_limit (inv : PlanInv schema p cq cq') (g : List Nat) (hg : cq.group = some g)
+    (hd : cq.distinct = false) (n : Nat) (hlim : cq'.limit = some (0, n)) (hcov : leadCovers g cq.keys = true)
+    (tables : List (List Row)) (hne : tables ≠ []) (htyped : ∀ t ∈ tables, TypedRows schema t)
+    (hkey : ∀ r ∈ tables.flatten, ∀ r' ∈ tables.flatten,
+      generateMapKey (groupKey g r) = generateMapKey (groupKey g r') → groupKey g r = groupKey g r')
+    (res : Result) (hm : mergeSelectResult p (tables.map (shardResult cq')) = .ok res) :
+    Answer cq tables.flatten res.rows := by
+  have hg' : cq'.group = some g := by rw [inv.group]; exact hg
+  have hd' : cq'.distinct = false := by rw [inv.cdistinct]; exact hd
+  have hpg : p.hasGroupBy = true := by rw [inv.pgroup, hg]; rfl
+  have hpd : p.distinct = false := by rw [inv.pdistinct]; exact hd
+  have hkeys' : cq'.keys = cq.keys := inv.keys
+  -- the LIMIT of the statement
+  obtain ⟨o, c, hcl, hn⟩ : ∃ o c, cq.limit = some (o, c) ∧ n = o + c := by
+    have hl := inv.limit
+    cases hlim' : cq.limit with
+    | none => rw [hlim'] at hl; rw [hl.2] at hlim; cases hlim
+    | some oc =>
+      obtain ⟨o, c⟩ := oc
+      rw [hlim'] at hl
+      rcases hl.2.2 with h1 | h1
+      · rw [h1] at hlim
+        simp only [Option.some.injEq, Prod.mk.injEq, true_and] at hlim
+        exact ⟨o, c, rfl, hlim.symm⟩
+      · rw [h1] at hlim; cases hlim
+  subst hn
+  let lead := leadCols g cq.keys
+  let leK := leG g lead cq.dirs
+  have ktrans : ∀ a b c, leK a b → leK b c → leK a c := fun a b c => leG_trans g lead cq.dirs a b c
+  have ktotal : ∀ a b, leK a b || leK b a := fun a b => leG_total g lead cq.dirs a b
+  let kc := kcOf g
+  let All : List (List (List Row)) := tables.map (chunksOf cq' g)
+  let Cs : List (List (List Row)) := All.map (List.take (o + c))
+  let Ls : List (List (List Val)) := All.map (List.map kc)
+  -- the chunks: groups of some sub-table
+  have hchunkAll : ∀ x ∈ All.flatten, ∃ t ∈ tables, x ∈ groupRows g t := by
+    intro x hx
+    obtain ⟨C, hC, hxC⟩ := List.mem_flatten.mp hx
+    obtain ⟨t, ht, rfl⟩ := List.mem_map.mp hC
+    exact ⟨t, ht, (chunksOf_perm cq' g t).mem_iff.mp hxC⟩
+  have hkept_sub : ∀ x ∈ Cs.flatten, x ∈ All.flatten := by
+    intro x hx
+    obtain ⟨C', hC', hxC'⟩ := List.mem_flatten.mp hx
+    obtain ⟨C, hC, rfl⟩ := List.mem_map.mp hC'
+    exact List.mem_flatten.mpr ⟨C, hC, List.mem_of_mem_take hxC'⟩
+  have hchunk : ∀ x ∈ Cs.flatten, ∃ t ∈ tables, x ∈ groupRows g t := fun x hx => hchunkAll x (hkept_sub x hx)
+  have hgrpItems := inv.grp g hg
+  have hchunkOK : ∀ x ∈ Cs.flatten, x ≠ [] ∧ TypedRows schema x ∧
+      keySliceOf p.groupByColumn (planDelta p cq') (fullRow cq'.items x) = .ok (kc x) := by
+    intro x hx
+    obtain ⟨t, ht, hct⟩ := hchunk x hx
+    obtain ⟨hne', hfil, _⟩ := groupRows_mem g t x hct
+    refine ⟨hne', ?_, ?_⟩
+    · rw [hfil]; exact typedRows_filter t _ (htyped t ht)
+    · have hr := inRange_of_itemAt cq'.items (fullRow cq'.items x) (fullRow_length _ _) (groupCols' p cq')
+        (g.map Item.col) (by rw [hgrpItems]; simp)
+      rw [keySliceOf_spec _ _ _ hr]
+      have := keyAt_of_itemAt cq'.items x (groupCols' p cq') (g.map Item.col) (by rw [hgrpItems]; simp)
+      simp only [groupCols'] at this
+      rw [this]
+      cases x with
+      | nil => exact absurd rfl hne'
+      | cons r rs => simp [kc, kcOf, List.map_map, groupKey, evalItem]
+  have hkc_memAll : ∀ x ∈ All.flatten, ∃ r ∈ tables.flatten, kc x = groupKey g r := by
+    intro x hx
+    obtain ⟨t, ht, hct⟩ := hchunkAll x hx
+    obtain ⟨_, _, hk⟩ := groupRows_mem g t x hct
+    obtain ⟨r, hr, hrk⟩ := List.mem_map.mp hk
+    exact ⟨r, List.mem_flatten.mpr ⟨t, ht, hr⟩, hrk.symm⟩
+  have hinj : ∀ x ∈ Cs.flatten, ∀ x' ∈ Cs.flatten,
+      generateMapKey (kc x) = generateMapKey (kc x') → kc x = kc x' := by
+    intro x hx x' hx' e
+    obtain ⟨r, hr, h1⟩ := hkc_memAll x (hkept_sub x hx)
+    obtain ⟨r', hr', h2⟩ := hkc_memAll x' (hkept_sub x' hx')
+    rw [h1, h2] at e ⊢
+    exact hkey r hr r' hr' e
+  -- the merged result sets
+  obtain ⟨T, Ts, hT⟩ := List.exists_cons_of_ne_nil hne
+  rw [mergeSelectResult_eq] at hm
+  have hmm : mergeMultiResultSet (tables.map (shardResult cq')) =
+      .ok { nfields := cq'.items.length, rows := Cs.flatten.map (fullRow cq'.items) } := by
+    rw [hT, List.map_cons, mergeMulti_uniform cq'.items.length (shardResult cq' T) (Ts.map (shardResult cq')) rfl
+      (by intro x hx; obtain ⟨t, _, rfl⟩ := List.mem_map.mp hx; rfl)]
+    congr 2
+    rw [← List.map_cons (f := shardResult cq'), ← hT]
+    simp only [Cs, All, List.map_map, List.map_flatten]
+    congr 1
+    apply List.map_congr_left
+    intro t _
+    exact shard_group_limit cq' g hg' hd' (o + c) hlim t
+  rw [hmm] at hm
+  simp only [R.bind_ok, hpg, if_true, hpd, Bool.false_eq_true, if_false, R.pure_eq] at hm
+  have hloop := groupLoop_chunks (schema := schema) p (planDelta p cq') cq'.items kc inv.aggs inv.aggOK
+    Cs.flatten [] (by simpa using hchunkOK) (by simpa using hinj)
+  have hstate0 : chunkState cq'.items kc [] = [] := by simp [chunkState, dedup, dedupAux]
+  rw [hstate0, List.nil_append] at hloop
+  have hdelta : delta p { nfields := cq'.items.length, rows := Cs.flatten.map (fullRow cq'.items) } = planDelta p cq' := by
+    simp [delta, planDelta]
+  simp only [buildSelectGroupByResult, hdelta, hloop, R.bind_ok] at hm
+  -- the merged rows: one per candidate key
+  have hheads : heads (o + c) Ls = Cs.flatten.map kc := by
+    simp only [heads, Ls, Cs, List.map_map, List.map_flatten]
+    congr 1
+    apply List.map_congr_left
+    intro C _
+    simp [List.map_take]
+  let K1 := dedup (heads (o + c) Ls)
+  let cand : List Val → Row := fun k => fullRow cq'.items (chunkRows kc Cs.flatten k)
+  have hmerged : (chunkState cq'.items kc Cs.flatten).map (·.2) = K1.map cand := by
+    simp [chunkState, K1, hheads, List.map_map, cand]
+  rw [hmerged] at hm
+  have hres := mergeTail_spec inv _ res rfl (by
+    intro x hx
+    obtain ⟨k, _, rfl⟩ := List.mem_map.mp hx
+    exact fullRow_length _ _) hm
+  -- the key lists of the sub-tables
+  have hLsflat : Ls.flatten = All.flatten.map kc := by
+    simp only [Ls, List.map_flatten]
+  have hLs_nodup : ∀ L ∈ Ls, L.Nodup := by
+    intro L hL
+    obtain ⟨C, hC, rfl⟩ := List.mem_map.mp hL
+    obtain ⟨t, ht, rfl⟩ := List.mem_map.mp hC
+    rw [((chunksOf_perm cq' g t).map kc).nodup_iff, groupRows_keys]
+    exact nodup_dedup _
+  have hLs_sorted : ∀ L ∈ Ls, L.Pairwise (fun a b => leK a b = true) := by
+    intro L hL
+    obtain ⟨C, hC, rfl⟩ := List.mem_map.mp hL
+    obtain ⟨t, ht, rfl⟩ := List.mem_map.mp hC
+    rw [List.pairwise_map]
+    have hs : (chunksOf cq' g t).Pairwise (fun a b => leOut cq'.dirs (outOf cq' a) (outOf cq' b) = true) := by
+      rw [chunksOf_eq]
+      exact List.pairwise_mergeSort (le := fun a b => leOut cq'.dirs (outOf cq' a) (outOf cq' b))
+        (fun a b c => leOut_trans _ _ _ _) (fun a b => leOut_total _ _ _) _
+    refine hs.imp_of_mem ?_
+    intro a b ha hb hab
+    obtain ⟨r, rs, rfl, hra, _⟩ := chunk_head g t a ((chunksOf_perm cq' g t).mem_iff.mp ha)
+    obtain ⟨r', rs', rfl, hrb, _⟩ := chunk_head g t b ((chunksOf_perm cq' g t).mem_iff.mp hb)
+    simp only [leOut, outOf, CQ.dirs, hkeys'] at hab
+    have := leKey_groups_le g cq.keys r r' rs rs' hab
+    simp only [leK, lead, kc, CQ.dirs, ← hra, ← hrb]
+    exact this
+  have hanti : ∀ a ∈ Ls.flatten, ∀ b ∈ Ls.flatten, leK a b = true → leK b a = true → a = b := by
+    intro a ha b hb h1 h2
+    rw [hLsflat] at ha hb
+    obtain ⟨xa, hxa, rfl⟩ := List.mem_map.mp ha
+    obtain ⟨xb, hxb, rfl⟩ := List.mem_map.mp hb
+    obtain ⟨ra, _, hka⟩ := hkc_memAll xa hxa
+    obtain ⟨rb, _, hkb⟩ := hkc_memAll xb hxb
+    rw [hka, hkb] at h1 h2 ⊢
+    refine leG_antisymm g lead cq.dirs (leadCols_mem g cq.keys) ?_ ?_ ra rb h1 h2
+    · intro x hx
+      have := List.all_eq_true.mp hcov x hx
+      simpa using this
+    · have := leadCols_length_le g cq.keys
+      simpa [CQ.dirs, lead] using this
+  obtain ⟨S, hSp, hSs, hSw⟩ := topk_nodup ktrans ktotal Ls hLs_sorted hLs_nodup o c
+  have hcomplete := take_complete ktrans ktotal Ls hLs_sorted hLs_nodup hanti (o + c)
+  -- keys and rows against the union
+  let tru : List Val → List Row := fun k => tables.flatten.filter fun r => groupKey g r = k
+  have hrowsAll : ∀ k, chunkRows kc All.flatten k = tru k :=
+    chunkRows_all g tables All (by simp [All]) (fun i h1 h2 => by
+      simp only [All, List.getElem_map]
+      exact chunksOf_perm cq' g _)
+  have hD : (dedup Ls.flatten).Perm (dedup (tables.flatten.map (groupKey g))) := by
+    rw [List.perm_ext_iff_of_nodup (nodup_dedup _) (nodup_dedup _)]
+    intro k
+    rw [mem_dedup, mem_dedup, hLsflat]
+    constructor
+    · intro hk
+      obtain ⟨x, hx, rfl⟩ := List.mem_map.mp hk
+      obtain ⟨r, hr, h1⟩ := hkc_memAll x hx
+      exact List.mem_map.mpr ⟨r, hr, h1.symm⟩
+    · intro hk
+      obtain ⟨r, hr, rfl⟩ := List.mem_map.mp hk
+      obtain ⟨t, ht, hrt⟩ := List.mem_flatten.mp hr
+      have hkt : groupKey g r ∈ t.map (groupKey g) := List.mem_map.mpr ⟨r, hrt, rfl⟩
+      have hc : (t.filter fun r' => groupKey g r' = groupKey g r) ∈ groupRows g t := by
+        simp only [groupRows, List.mem_map]
+        exact ⟨groupKey g r, (mem_dedup _ _).mpr hkt, rfl⟩
+      have hc' : (t.filter fun r' => groupKey g r' = groupKey g r) ∈ All.flatten :=
+        List.mem_flatten.mpr ⟨chunksOf cq' g t, List.mem_map.mpr ⟨t, ht, rfl⟩,
+          (chunksOf_perm cq' g t).mem_iff.mpr hc⟩
+      exact List.mem_map.mpr ⟨_, hc', kcOf_filter g t _ hkt⟩
+  -- a candidate / a group of the union: a first row carrying the key
+  have hcand_head : ∀ k ∈ K1, ∃ r rs, chunkRows kc Cs.flatten k = r :: rs ∧ groupKey g r = k := by
+    intro k hk
+    have hk' : k ∈ Cs.flatten.map kc := by rw [← hheads]; exact (mem_dedup _ _).mp hk
+    have hne' := chunkRows_ne_nil kc Cs.flatten k (fun x hx => (hchunkOK x hx).1) hk'
+    cases hX : chunkRows kc Cs.flatten k with
+    | nil => exact absurd hX hne'
+    | cons r rs =>
+      refine ⟨r, rs, rfl, ?_⟩
+      have hr : r ∈ chunkRows kc Cs.flatten k := by rw [hX]; simp
+      simp only [chunkRows] at hr
+      obtain ⟨x, hxf, hrx⟩ := List.mem_flatten.mp hr
+      have hx := (List.mem_filter.mp hxf).1
+      have hkx : kc x = k := by simpa using (List.mem_filter.mp hxf).2
+      obtain ⟨t, ht, hct⟩ := hchunk x hx
+      obtain ⟨_, _, _, _, hall⟩ := chunk_head g t x hct
+      rw [← hkx]
+      exact hall r hrx
+  have htru_head : ∀ k ∈ dedup (tables.flatten.map (groupKey g)), ∃ r rs, tru k = r :: rs ∧ groupKey g r = k := by
+    intro k hk
+    obtain ⟨r0, hr0, rfl⟩ := List.mem_map.mp ((mem_dedup _ _).mp hk)
+    cases hX : tru (groupKey g r0) with
+    | nil =>
+      have : r0 ∈ tru (groupKey g r0) := List.mem_filter.mpr ⟨hr0, by simp⟩
+      rw [hX] at this; cases this
+    | cons r rs =>
+      refine ⟨r, rs, rfl, ?_⟩
+      have hr : r ∈ tru (groupKey g r0) := by rw [hX]; simp
+      simpa [tru] using (List.mem_filter.mp hr).2
+  let LF := leFull cq.dirs (sortCols p cq')
+  -- sorting the candidates is sorting their keys
+  have hsortmap : (K1.map cand).mergeSort LF = (K1.mergeSort leK).map cand := by
+    symm
+    apply List.map_mergeSort
+    intro a ha b hb
+    by_cases e : a = b
+    · subst e
+      have h1 : leK a a = true := by have := ktotal a a; simpa using this
+      have h2 : LF (cand a) (cand a) = true := by
+        have := leFull_total cq.dirs (sortCols p cq') (cand a) (cand a); simpa using this
+      rw [h1, h2]
+    · obtain ⟨r, rs, hra, hka⟩ := hcand_head a ha
+      obtain ⟨r', rs', hrb, hkb⟩ := hcand_head b hb
+      simp only [LF, cand, hra, hrb, leFull_fullRow inv]
+      rw [leKey_groups_ne g cq.keys r r' rs rs' (by rw [hka, hkb]; exact e) hcov, hka, hkb]
+      rfl
+  -- the candidates of the window are complete
+  have hcand_tru : ∀ k ∈ (K1.mergeSort leK).take (o + c), cand k = fullRow cq'.items (tru k) := by
+    intro k hk
+    simp only [cand]
+    rw [← hrowsAll k]
+    congr 1
+    simp only [chunkRows, Cs, List.filter_flatten, List.map_map]
+    congr 2
+    apply List.map_congr_left
+    intro C hC
+    simp only [Function.comp]
+    apply filter_take_of_nodup kc C (o + c) k
+    · exact hLs_nodup _ (List.mem_map.mpr ⟨C, hC, rfl⟩)
+    · intro hkC
+      exact hcomplete k hk (C.map kc) (List.mem_map.mpr ⟨C, hC, rfl⟩) hkC
+  have hSD := hSp.trans hD
+  refine ⟨S.map (fun k => outOf cq (tru k)), ?_, ?_, ?_⟩
+  · rw [evalPre_group cq g hg hd]
+    simp only [groupRows, List.map_map]
+    exact hSD.map _
+  · rw [List.pairwise_map]
+    have hnd : S.Nodup := hSD.nodup_iff.mpr (nodup_dedup _)
+    have hboth := hSs.and hnd
+    refine hboth.imp_of_mem ?_
+    intro a b ha hb hab
+    obtain ⟨r, rs, hra, hka⟩ := htru_head a (hSD.mem_iff.mp ha)
+    obtain ⟨r', rs', hrb, hkb⟩ := htru_head b (hSD.mem_iff.mp hb)
+    simp only [leOut, outOf, hra, hrb, CQ.dirs]
+    rw [leKey_groups_ne g cq.keys r r' rs rs' (by rw [hka, hkb]; exact hab.2) hcov, hka, hkb]
+    exact hab.1
+  · rw [hres, hsortmap, hcl]
+    simp only [window]
+    rw [← List.map_drop, ← List.map_take, ← hSw, List.map_map, ← List.map_drop, ← List.map_take, List.map_map]
+    apply List.map_congr_left
+    intro k hk
+    have hk' : k ∈ (K1.mergeSort leK).take (o + c) := by
+      rw [hSw] at hk
+      exact mem_window_take _ o c k hk
+    simp only [Function.comp]
+    rw [hcand_tru k hk', ← inv_toOut inv]
+    rfl
+
+end
+
+/-! ### SELECT DISTINCT over aggregated / grouped statements -/
+
+theorem dedupBy_singleton {α β : Type} [DecidableEq β] (f : α → β) (a : α) : dedupBy f [a] = [a] := by
+  simp [dedupBy, dedupByAux]
+
+theorem evalPre_single' (cq : CQ) (hagg : cq.aggregated = true) (hg : cq.group = none) (T : List Row) :
+    evalPre cq T = [outOf cq T] := by
+  cases hd : cq.distinct <;> simp [evalPre, groupsOf, hagg, hg, hd, dedupBy_singleton]
+
+theorem shard_single' (cq' : CQ) (hagg : cq'.aggregated = true) (hg : cq'.group = none) (T : List Row) :
+    (evalCQ cq' T).map (·.vis) = window cq'.limit [fullRow cq'.items T] := by
+  simp only [evalCQ, ← window_map, evalSorted, evalPre_single' cq' hagg hg]
+  congr 1
+  split <;> simp [outOf_vis]
+
+/-- `removeDistinctRowInResult` on rows at least as wide as the key: first occurrences by the key of the prefix -/
+theorem removeDistinctRows_prefix (W : Nat) : ∀ (rows : List Row) (seen : List (List UInt8)),
+    (∀ r ∈ rows, W ≤ r.length) →
+    removeDistinctRows (W : Int) seen rows = .ok (dedupByAux (fun r => generateMapKey (r.take W)) seen rows)
+  | [], _, _ => rfl
+  | r :: rows, seen, h => by
+    have hr := h r (by simp)
+    have ih := fun seen' => removeDistinctRows_prefix W rows seen' (fun x hx => h x (by simp [hx]))
+    have hp : rowPrefix r (W : Int) = .ok (r.take W) := by
+      simp only [rowPrefix]
+      rw [if_pos (by omega)]
+      simp
+    simp only [removeDistinctRows, hp, dedupByAux]
+    by_cases hm : generateMapKey (r.take W) ∈ seen
+    · have : seen.contains (generateMapKey (r.take W)) = true := by simpa using hm
+      rw [if_pos hm]
+      simp only [this, if_true]
+      exact ih seen
+    · have : seen.contains (generateMapKey (r.take W)) = false := by simpa using hm
+      rw [if_neg hm]
+      simp only [this, Bool.false_eq_true, if_false, ih]
+
+section
+variable {schema : List Ty} {p : Plan} {cq cq' : CQ}
+
+theorem removeDistinct_spec (inv : PlanInv schema p cq cq') (rows : List Row)
+    (hrows : ∀ r ∈ rows, r.length = cq'.items.length) :
+    removeDistinctRowInResult p { nfields := cq'.items.length, rows := rows } =
+      .ok { nfields := cq'.items.length,
+            rows := dedupBy (fun r => generateMapKey (r.take cq.items.length)) rows } := by
+  have hcolcnt : (p.originColumnCount : Int) + delta p { nfields := cq'.items.length, rows := rows } = (cq.items.length : Nat) := by
+    have := inv.trim
+    simp only [delta, planDelta] at this ⊢
+    omega
+  simp only [removeDistinctRowInResult, hcolcnt]
+  rw [removeDistinctRows_prefix cq.items.length rows [] (fun r hr => by rw [hrows r hr]; exact inv.width)]
+  rfl
+
+theorem dedupBy_le_one {α β : Type} [DecidableEq β] (f : α → β) (l : List α) (h : l.length ≤ 1) : dedupBy f l = l := by
+  match l, h with
+  | [], _ => rfl
+  | [a], _ => exact dedupBy_singleton f a
+  | _ :: _ :: _, h => simp at h
+
+
+/-- the DISTINCT step of `MergeSelectResult` on at most one row -/
+theorem distinct_step_le_one (inv : PlanInv schema p cq cq') (rows : List Row)
+    (hrows : ∀ r ∈ rows, r.length = cq'.items.length) (hlen : rows.length ≤ 1) :
+    (if p.distinct = true then removeDistinctRowInResult p { nfields := cq'.items.length, rows := rows }
+      else pure { nfields := cq'.items.length, rows := rows }) =
+      R.ok { nfields := cq'.items.length, rows := rows } := by
+  split
+  · rw [removeDistinct_spec inv rows hrows, dedupBy_le_one _ _ hlen]
+  · rfl
+
+/-- **Aggregate functions without GROUP BY, with or without SELECT DISTINCT**
+    (DISTINCT of the one row is the row). -/
+theorem merge_aggregate_any (inv : PlanInv schema p cq cq') (hagg : cq.aggregated = true) (hagg' : cq'.aggregated = true)
+    (hany : cq'.items.any Item.isAgg = true)
+    (hg : cq.group = none) (hnocol : ∀ it ∈ cq'.items, ∀ c, it ≠ .col c)
+    (tables : List (List Row)) (hne : tables ≠ []) (htyped : ∀ t ∈ tables, TypedRows schema t) (res : Result)
+    (hm : mergeSelectResult p (tables.map (shardResult cq')) = .ok res) :
+    Answer cq tables.flatten res.rows := by
+  have hg' : cq'.group = none := by rw [inv.group]; exact hg
+  have hpg : p.hasGroupBy = false := by rw [inv.pgroup, hg]; rfl
+  have haggs : p.aggs.isEmpty = false := by
+    rw [inv.aggs]
+    simp only [List.any_eq_true] at hany
+    obtain ⟨it, hit, hagg⟩ := hany
+    obtain ⟨n, hn⟩ := List.getElem?_of_mem hit
+    cases it with
+    | agg k a d =>
+      have : (n, k) ∈ aggPositions cq'.items := (mem_aggPosFrom _ 0 n k).mpr ⟨n, a, d, by simp, hn⟩
+      cases hh : aggPositions cq'.items with
+      | nil => rw [hh] at this; cases this
+      | cons x xs => rfl
+    | col c => simp [Item.isAgg] at hagg
+    | const c => simp [Item.isAgg] at hagg
+  obtain ⟨T, Ts, rfl⟩ := List.exists_cons_of_ne_nil hne
+  rw [mergeSelectResult_eq] at hm
+  simp only [List.map_cons] at hm
+  rw [mergeMulti_uniform cq'.items.length (shardResult cq' T) (Ts.map (shardResult cq')) rfl
+    (by intro x hx; obtain ⟨t, _, rfl⟩ := List.mem_map.mp hx; rfl)] at hm
+  simp only [R.bind_ok, hpg, Bool.false_eq_true, if_false] at hm
+  have hrowsEq : (((shardResult cq' T) :: Ts.map (shardResult cq')).map (·.rows)).flatten
+      = (((T :: Ts).map fun t => window cq'.limit [fullRow cq'.items t])).flatten := by
+    simp only [shardResult, List.map_cons, List.map_map]
+    rw [shard_single' cq' hagg' hg' T]
+    congr 2
+    apply List.map_congr_left
+    intro t _
+    exact shard_single' cq' hagg' hg' t
+  rw [hrowsEq] at hm
+  -- the reference answer
+  have href : evalPre cq (T :: Ts).flatten = [outOf cq (T :: Ts).flatten] := evalPre_single' cq hagg hg _
+  have hl := inv.limit
+  -- does the per-table LIMIT keep the row?
+  by_cases hzero : cq'.limit = some (0, 0)
+  · -- LIMIT 0: every sub-table returns nothing, and so does the statement
+    have hc : ∃ o, cq.limit = some (o, 0) ∧ o = 0 := by
+      cases hlim : cq.limit with
+      | none => rw [hlim] at hl; rw [hl.2] at hzero; cases hzero
+      | some oc =>
+        obtain ⟨o, c⟩ := oc
+        rw [hlim] at hl
+        rcases hl.2.2 with h1 | h1
+        · rw [h1] at hzero
+          simp only [Option.some.injEq, Prod.mk.injEq, true_and] at hzero
+          exact ⟨o, by congr 2; omega, by omega⟩
+        · rw [h1] at hzero; cases hzero
+    obtain ⟨o, hlim, ho⟩ := hc
+    subst ho
+    have hempty : (((T :: Ts).map fun t => window cq'.limit [fullRow cq'.items t])).flatten = [] := by
+      rw [hzero]
+      apply List.flatten_eq_nil_iff.mpr
+      intro l hl'
+      obtain ⟨t, _, rfl⟩ := List.mem_map.mp hl'
+      simp [window]
+    rw [hempty] at hm
+    simp only [buildSelectOnlyResult, haggs, Bool.false_eq_true, if_false, R.bind_ok] at hm
+    have hm' : mergeTail p { nfields := cq'.items.length, rows := [] } = .ok res := by
+      by_cases hpd : p.distinct = true
+      · rw [if_pos hpd, removeDistinct_spec inv [] (by intro x hx; cases hx), dedupBy_le_one _ _ (by simp)] at hm
+        simpa using hm
+      · rw [if_neg hpd] at hm
+        simpa using hm
+    have hres := mergeTail_spec inv _ res rfl (by intro x hx; cases hx) hm'
+    refine ⟨[outOf cq (T :: Ts).flatten], by rw [href], by simp, ?_⟩
+    rw [hres, hlim]
+    simp [window]
+  · have hkeep : ∀ t : List Row, window cq'.limit [fullRow cq'.items t] = [fullRow cq'.items t] := by
+      intro t
+      cases hlim' : cq'.limit with
+      | none => rfl
+      | some oc =>
+        obtain ⟨o', c'⟩ := oc
+        have : o' = 0 ∧ c' ≠ 0 := by
+          cases hlim : cq.limit with
+          | none => rw [hlim] at hl; rw [hl.2] at hlim'; cases hlim'
+          | some oc =>
+            obtain ⟨o, c⟩ := oc
+            rw [hlim] at hl
+            rcases hl.2.2 with h1 | h1
+            · rw [h1] at hlim'
+              simp only [Option.some.injEq, Prod.mk.injEq] at hlim'
+              refine ⟨hlim'.1.symm, ?_⟩
+              intro hc'
+              apply hzero
+              rw [h1]
+              congr 2
+              omega
+            · rw [h1] at hlim'; cases hlim'
+        obtain ⟨rfl, hc'⟩ := this
+        obtain ⟨n, rfl⟩ := Nat.exists_eq_succ_of_ne_zero hc'
+        simp [window]
+    have hflat : (((T :: Ts).map fun t => window cq'.limit [fullRow cq'.items t])).flatten
+        = (T :: Ts).map (fullRow cq'.items) := by
+      simp only [hkeep]
+      induction (T :: Ts) with
+      | nil => rfl
+      | cons a l ih => simp [ih]
+    rw [hflat] at hm
+    simp only [List.map_cons, buildSelectOnlyResult, haggs, Bool.false_eq_true, if_false] at hm
+    rw [inv.aggs, onlyLoop_spec cq'.items inv.aggOK hnocol Ts T (htyped T (by simp))
+      (fun t ht => htyped t (by simp [ht]))] at hm
+    simp only [R.bind_ok] at hm
+    have hlen1 : ∀ x ∈ [fullRow cq'.items (T ++ Ts.flatten)], x.length = cq'.items.length := by
+      intro x hx
+      simp only [List.mem_singleton] at hx
+      subst hx
+      exact fullRow_length _ _
+    have hm' : mergeTail p { nfields := cq'.items.length, rows := [fullRow cq'.items (T ++ Ts.flatten)] } = .ok res := by
+      by_cases hpd : p.distinct = true
+      · rw [if_pos hpd, removeDistinct_spec inv _ hlen1, dedupBy_le_one _ _ (by simp)] at hm
+        simpa using hm
+      · rw [if_neg hpd] at hm
+        simpa using hm
+    have hres := mergeTail_spec inv _ res rfl hlen1 hm'
+    refine ⟨[outOf cq (T :: Ts).flatten], by rw [href], by simp, ?_⟩
+    rw [hres]
+    simp only [List.mergeSort_singleton, List.flatten_cons]
+    rw [← inv_toOut inv, ← List.map_singleton (f := toOut cq.items.length (sortCols p cq')), window_map, List.map_map]
+    apply List.map_congr_left
+    intro r _
+    rfl
+
+end
+
+theorem dedupByAux_of_nodup {α β : Type} [DecidableEq β] (f : α → β) : ∀ (l : List α) (seen : List β),
+    (l.map f).Nodup → (∀ a ∈ l, f a ∉ seen) → dedupByAux f seen l = l
+  | [], _, _, _ => rfl
+  | a :: l, seen, hnd, hs => by
+    simp only [List.map_cons, List.nodup_cons] at hnd
+    simp only [dedupByAux]
+    rw [if_neg (hs a (by simp))]
+    congr 1
+    apply dedupByAux_of_nodup f l (f a :: seen) hnd.2
+    intro b hb
+    simp only [List.mem_cons, not_or]
+    exact ⟨fun e => hnd.1 (e ▸ List.mem_map.mpr ⟨b, hb, rfl⟩), hs b (by simp [hb])⟩
+
+theorem dedupBy_of_nodup {α β : Type} [DecidableEq β] (f : α → β) (l : List α) (h : (l.map f).Nodup) :
+    dedupBy f l = l :=
+  dedupByAux_of_nodup f l [] h (by simp)
+
+/-- first occurrences by `f ∘ h` are first occurrences by `h` when `f` is injective on the `h`-values present -/
+theorem dedupByAux_comp_inj {α β γ : Type} [DecidableEq β] [DecidableEq γ] (h : α → β) (f : β → γ) :
+    ∀ (l : List α) (seen : List β), (∀ a ∈ seen ++ l.map h, ∀ b ∈ seen ++ l.map h, f a = f b → a = b) →
+    dedupByAux (fun x => f (h x)) (seen.map f) l = dedupByAux h seen l
+  | [], _, _ => rfl
+  | a :: l, seen, hinj => by
+    simp only [dedupByAux]
+    have hiff : f (h a) ∈ seen.map f ↔ h a ∈ seen := by
+      constructor
+      · intro hm
+        obtain ⟨b, hb, e⟩ := List.mem_map.mp hm
+        have := hinj b (by simp [hb]) (h a) (by simp) e
+        exact this ▸ hb
+      · intro hm; exact List.mem_map.mpr ⟨h a, hm, rfl⟩
+    by_cases hm : h a ∈ seen
+    · rw [if_pos (hiff.mpr hm), if_pos hm]
+      exact dedupByAux_comp_inj h f l seen (fun x hx y hy => hinj x (by
+        rcases List.mem_append.mp hx with h1 | h1
+        · simp [h1]
+        · simp only [List.map_cons, List.mem_append, List.mem_cons]; exact Or.inr (Or.inr h1)) y (by
+        rcases List.mem_append.mp hy with h1 | h1
+        · simp [h1]
+        · simp only [List.map_cons, List.mem_append, List.mem_cons]; exact Or.inr (Or.inr h1)))
+    · rw [if_neg (fun h' => hm (hiff.mp h')), if_neg hm]
+      congr 1
+      have := dedupByAux_comp_inj h f l (h a :: seen) (fun x hx y hy => hinj x (by
+        simp only [List.cons_append, List.mem_cons, List.mem_append, List.map_cons] at hx ⊢
+        rcases hx with h1 | h1 | h1
+        · exact Or.inr (Or.inl h1)
+        · exact Or.inl h1
+        · exact Or.inr (Or.inr h1)) y (by
+        simp only [List.cons_append, List.mem_cons, List.mem_append, List.map_cons] at hy ⊢
+        rcases hy with h1 | h1 | h1
+        · exact Or.inr (Or.inl h1)
+        · exact Or.inl h1
+        · exact Or.inr (Or.inr h1)))
+      simpa using this
+
+theorem dedupBy_comp_inj {α β γ : Type} [DecidableEq β] [DecidableEq γ] (h : α → β) (f : β → γ) (l : List α)
+    (hinj : ∀ a ∈ l.map h, ∀ b ∈ l.map h, f a = f b → a = b) :
+    dedupBy (fun x => f (h x)) l = dedupBy h l := by
+  have := dedupByAux_comp_inj h f l [] (by simpa using hinj)
+  simpa [dedupBy] using this
+
+theorem evalPre_group_nodup (cq : CQ) (g : List Nat) (hg : cq.group = some g) (T : List Row)
+    (hnd : ((groupRows g T).map fun c => (outOf cq c).vis).Nodup) :
+    evalPre cq T = (groupRows g T).map (outOf cq) := by
+  simp only [evalPre, groupsOf, CQ.aggregated, hg, Option.isSome_some, Bool.true_or, Bool.not_true,
+    Bool.false_eq_true, if_false]
+  split
+  · apply dedupBy_of_nodup
+    rw [List.map_map]
+    exact hnd
+  · rfl
+
+/-- the rows a sub-table returns for a GROUP BY statement, before its LIMIT -/
+theorem sorted_group' (cq' : CQ) (g : List Nat) (T : List Row)
+    (hpre : evalPre cq' T = (groupRows g T).map (outOf cq')) :
+    (evalSorted cq' T).map (·.vis) = (chunksOf cq' g T).map (fullRow cq'.items) := by
+  simp only [evalSorted, hpre, chunksOf]
+  split
+  · simp only [List.map_map]; rfl
+  · rw [← List.map_mergeSort (r := fun a b => leOut cq'.dirs (outOf cq' a) (outOf cq' b))
+      (s := leOut cq'.dirs) (f := outOf cq') (fun a _ b _ => rfl)]
+    simp only [List.map_map]; rfl
+
+section
+variable {schema : List Ty} {p : Plan} {cq cq' : CQ}
+
+/-- the GROUP BY key of a group, read from its (per-table) row -/
+theorem keyAt_groupCols (inv : PlanInv schema p cq cq') (g : List Nat) (hg : cq.group = some g)
+    (r : Row) (rs : List Row) :
+    keyAt (groupCols' p cq') (fullRow cq'.items (r :: rs)) = groupKey g r := by
+  have := keyAt_of_itemAt cq'.items (r :: rs) (groupCols' p cq') (g.map Item.col) (by rw [inv.grp g hg]; simp)
+  rw [this]
+  simp [List.map_map, groupKey, evalItem]
+
+/-- the per-table rows of different groups differ (every GROUP BY column is among their columns),
+    so SELECT DISTINCT removes nothing on a sub-table -/
+theorem shard_vis_nodup (inv : PlanInv schema p cq cq') (g : List Nat) (hg : cq.group = some g) (T : List Row) :
+    ((groupRows g T).map fun c => (outOf cq' c).vis).Nodup := by
+  have hk : ((groupRows g T).map fun c => (outOf cq' c).vis).map (keyAt (groupCols' p cq')) =
+      (groupRows g T).map (kcOf g) := by
+    rw [List.map_map]
+    apply List.map_congr_left
+    intro c hc
+    obtain ⟨r, rs, rfl, hr, _⟩ := chunk_head g T c hc
+    simp only [Function.comp, outOf_vis, keyAt_groupCols inv g hg, kcOf]
+  have hnd : (((groupRows g T).map fun c => (outOf cq' c).vis).map (keyAt (groupCols' p cq'))).Nodup := by
+    rw [hk, groupRows_keys]; exact nodup_dedup _
+  exact List.Pairwise.of_map (keyAt (groupCols' p cq')) (fun a b h e => h (congrArg _ e)) hnd
+
+theorem keyAt_take (cols : List Int) (W : Nat) (row : Row) (hvis : ∀ c ∈ cols, 0 ≤ c ∧ c < (W : Int)) :
+    keyAt cols (row.take W) = keyAt cols row := by
+  simp only [keyAt]
+  apply List.map_congr_left
+  intro c hc
+  have := hvis c hc
+  have hlt : c.toNat < W := by omega
+  simp [List.getD, hlt]
+
+/-- **SELECT DISTINCT over a GROUP BY statement** (no per-table LIMIT; ORDER BY names
+    selected expressions only): the sub-tables return their groups (DISTINCT removes
+    nothing there, the GROUP BY columns are among the columns they return), the
+    groups are merged, then DISTINCT keeps one row per visible row. -/
+theorem merge_group_distinct (inv : PlanInv schema p cq cq') (g : List Nat) (hg : cq.group = some g)
+    (hd : cq.distinct = true) (hlim : cq'.limit = none)
+    (hvis : ∀ c ∈ sortCols p cq', 0 ≤ c ∧ c < (cq.items.length : Int))
+    (tables : List (List Row)) (hne : tables ≠ []) (htyped : ∀ t ∈ tables, TypedRows schema t)
+    (hkey : ∀ r ∈ tables.flatten, ∀ r' ∈ tables.flatten,
+      generateMapKey (groupKey g r) = generateMapKey (groupKey g r') → groupKey g r = groupKey g r')
+    (hrow : ∀ G ∈ groupRows g tables.flatten, ∀ G' ∈ groupRows g tables.flatten,
+      generateMapKey (outOf cq G).vis = generateMapKey (outOf cq G').vis → (outOf cq G).vis = (outOf cq G').vis)
+    (res : Result) (hm : mergeSelectResult p (tables.map (shardResult cq')) = .ok res) :
+    Answer cq tables.flatten res.rows := by
+  have hg' : cq'.group = some g := by rw [inv.group]; exact hg
+  have hpg : p.hasGroupBy = true := by rw [inv.pgroup, hg]; rfl
+  have hpd : p.distinct = true := by rw [inv.pdistinct]; exact hd
+  let Cs : List (List (List Row)) := tables.map (chunksOf cq' g)
+  let kc := kcOf g
+  -- the chunks: groups of some sub-table
+  have hchunk : ∀ c ∈ Cs.flatten, ∃ t ∈ tables, c ∈ groupRows g t := by
+    intro c hc
+    obtain ⟨C, hC, hcC⟩ := List.mem_flatten.mp hc
+    obtain ⟨t, ht, rfl⟩ := List.mem_map.mp hC
+    exact ⟨t, ht, (chunksOf_perm cq' g t).mem_iff.mp hcC⟩
+  have hgrpItems := inv.grp g hg
+  have hchunkOK : ∀ c ∈ Cs.flatten, c ≠ [] ∧ TypedRows schema c ∧
+      keySliceOf p.groupByColumn (planDelta p cq') (fullRow cq'.items c) = .ok (kc c) := by
+    intro c hc
+    obtain ⟨t, ht, hct⟩ := hchunk c hc
+    obtain ⟨hne', hfil, _⟩ := groupRows_mem g t c hct
+    refine ⟨hne', ?_, ?_⟩
+    · rw [hfil]; exact typedRows_filter t _ (htyped t ht)
+    · have hr := inRange_of_itemAt cq'.items (fullRow cq'.items c) (fullRow_length _ _) (groupCols' p cq')
+        (g.map Item.col) (by rw [hgrpItems]; simp)
+      rw [keySliceOf_spec _ _ _ hr]
+      have := keyAt_of_itemAt cq'.items c (groupCols' p cq') (g.map Item.col) (by rw [hgrpItems]; simp)
+      simp only [groupCols'] at this
+      rw [this]
+      cases c with
+      | nil => exact absurd rfl hne'
+      | cons r rs => simp [kc, kcOf, List.map_map, groupKey, evalItem]
+  have hkc_mem : ∀ c ∈ Cs.flatten, ∃ r ∈ tables.flatten, kc c = groupKey g r := by
+    intro c hc
+    obtain ⟨t, ht, hct⟩ := hchunk c hc
+    obtain ⟨_, _, hk⟩ := groupRows_mem g t c hct
+    obtain ⟨r, hr, hrk⟩ := List.mem_map.mp hk
+    exact ⟨r, List.mem_flatten.mpr ⟨t, ht, hr⟩, hrk.symm⟩
+  have hinj : ∀ c ∈ Cs.flatten, ∀ c' ∈ Cs.flatten,
+      generateMapKey (kc c) = generateMapKey (kc c') → kc c = kc c' := by
+    intro c hc c' hc' e
+    obtain ⟨r, hr, h1⟩ := hkc_mem c hc
+    obtain ⟨r', hr', h2⟩ := hkc_mem c' hc'
+    rw [h1, h2] at e ⊢
+    exact hkey r hr r' hr' e
+  -- the merged result sets
+  obtain ⟨T, Ts, hT⟩ := List.exists_cons_of_ne_nil hne
+  rw [mergeSelectResult_eq] at hm
+  have hmm : mergeMultiResultSet (tables.map (shardResult cq')) =
+      .ok { nfields := cq'.items.length, rows := Cs.flatten.map (fullRow cq'.items) } := by
+    rw [hT, List.map_cons, mergeMulti_uniform cq'.items.length (shardResult cq' T) (Ts.map (shardResult cq')) rfl
+      (by intro x hx; obtain ⟨t, _, rfl⟩ := List.mem_map.mp hx; rfl)]
+    congr 2
+    rw [← List.map_cons (f := shardResult cq'), ← hT]
+    simp only [Cs, List.map_map, List.map_flatten]
+    congr 1
+    apply List.map_congr_left
+    intro t _
+    simp only [Function.comp, shardResult, evalCQ, hlim, window]
+    exact sorted_group' cq' g t (evalPre_group_nodup cq' g hg' t (shard_vis_nodup inv g hg t))
+  rw [hmm] at hm
+  simp only [R.bind_ok, hpg, if_true, hpd] at hm
+  have hloop := groupLoop_chunks (schema := schema) p (planDelta p cq') cq'.items kc inv.aggs inv.aggOK
+    Cs.flatten [] (by simpa using hchunkOK) (by simpa using hinj)
+  have hstate0 : chunkState cq'.items kc [] = [] := by simp [chunkState, dedup, dedupAux]
+  rw [hstate0, List.nil_append] at hloop
+  have hdelta : delta p { nfields := cq'.items.length, rows := Cs.flatten.map (fullRow cq'.items) } = planDelta p cq' := by
+    simp [delta, planDelta]
+  simp only [buildSelectGroupByResult, hdelta, hloop, R.bind_ok] at hm
+  -- the merged rows
+  let K1 := dedup (Cs.flatten.map kc)
+  let tru : List Val → List Row := fun k => tables.flatten.filter fun r => groupKey g r = k
+  have hrowsAll : ∀ k, chunkRows kc Cs.flatten k = tru k :=
+    chunkRows_all g tables Cs (by simp [Cs]) (fun i h1 h2 => by
+      simp only [Cs, List.getElem_map]
+      exact chunksOf_perm cq' g _)
+  have hmerged : (chunkState cq'.items kc Cs.flatten).map (·.2) =
+      K1.map fun k => fullRow cq'.items (tru k) := by
+    simp only [chunkState, K1, List.map_map]
+    apply List.map_congr_left
+    intro k _
+    simp only [Function.comp, hrowsAll]
+  rw [hmerged] at hm
+  let merged := K1.map fun k => fullRow cq'.items (tru k)
+  have hlenm : ∀ x ∈ merged, x.length = cq'.items.length := by
+    intro x hx
+    obtain ⟨k, _, rfl⟩ := List.mem_map.mp hx
+    exact fullRow_length _ _
+  let D := dedup (tables.flatten.map (groupKey g))
+  have hK : K1.Perm D := by
+    rw [List.perm_ext_iff_of_nodup (nodup_dedup _) (nodup_dedup _)]
+    intro k
+    rw [mem_dedup, mem_dedup]
+    constructor
+    · intro hk
+      obtain ⟨c, hc, rfl⟩ := List.mem_map.mp hk
+      obtain ⟨r, hr, h1⟩ := hkc_mem c hc
+      exact List.mem_map.mpr ⟨r, hr, h1.symm⟩
+    · intro hk
+      obtain ⟨r, hr, rfl⟩ := List.mem_map.mp hk
+      obtain ⟨t, ht, hrt⟩ := List.mem_flatten.mp hr
+      have hkt : groupKey g r ∈ t.map (groupKey g) := List.mem_map.mpr ⟨r, hrt, rfl⟩
+      have hc : (t.filter fun r' => groupKey g r' = groupKey g r) ∈ groupRows g t := by
+        simp only [groupRows, List.mem_map]
+        exact ⟨groupKey g r, (mem_dedup _ _).mpr hkt, rfl⟩
+      have hc' : (t.filter fun r' => groupKey g r' = groupKey g r) ∈ Cs.flatten :=
+        List.mem_flatten.mpr ⟨chunksOf cq' g t, List.mem_map.mpr ⟨t, ht, rfl⟩,
+          (chunksOf_perm cq' g t).mem_iff.mpr hc⟩
+      exact List.mem_map.mpr ⟨_, hc', kcOf_filter g t _ hkt⟩
+  -- the DISTINCT step: one row per visible row
+  let W := cq.items.length
+  let v : List Val → Row := fun k => (outOf cq (tru k)).vis
+  have hvtake : ∀ k, (fullRow cq'.items (tru k)).take W = v k := by
+    intro k
+    simp only [v, W, outOf, inv_take inv]
+  have hmv : merged.map (List.take W) = K1.map v := by
+    simp only [merged, List.map_map]
+    apply List.map_congr_left
+    intro k _
+    exact hvtake k
+  rw [removeDistinct_spec inv merged hlenm] at hm
+  have hdd : dedupBy (fun r : Row => generateMapKey (r.take W)) merged = dedupBy (List.take W) merged := by
+    apply dedupBy_comp_inj (List.take W) generateMapKey merged
+    rw [hmv]
+    intro a ha b hb e
+    obtain ⟨ka, hka, rfl⟩ := List.mem_map.mp ha
+    obtain ⟨kb, hkb, rfl⟩ := List.mem_map.mp hb
+    have hga : tru ka ∈ groupRows g tables.flatten := by
+      simp only [groupRows, List.mem_map]
+      exact ⟨ka, hK.mem_iff.mp hka, rfl⟩
+    have hgb : tru kb ∈ groupRows g tables.flatten := by
+      simp only [groupRows, List.mem_map]
+      exact ⟨kb, hK.mem_iff.mp hkb, rfl⟩
+    exact hrow _ hga _ hgb e
+  rw [hdd] at hm
+  simp only [R.bind_ok] at hm
+  let A := dedupBy (List.take W) merged
+  have hA_sub : ∀ x ∈ A, x ∈ merged := fun x hx => mem_dedupByAux _ _ _ x hx
+  have hres := mergeTail_spec inv _ res rfl (fun x hx => hlenm x (hA_sub x hx)) hm
+  let LF := leFull cq.dirs (sortCols p cq')
+  let cols := sortCols p cq'
+  let mk : Row → OutRow := fun x => { vis := x, key := keyAt cols x }
+  have htoOut : ∀ x : Row, toOut W cols x = mk (x.take W) := by
+    intro x
+    simp only [toOut, mk, keyAt_take cols W x hvis]
+  have houtmk : ∀ k, outOf cq (tru k) = mk (v k) := by
+    intro k
+    rw [← inv_toOut inv, htoOut, hvtake]
+  refine ⟨(A.mergeSort LF).map (toOut W cols), ?_, ?_, ?_⟩
+  · -- the reference rows
+    have href : evalPre cq tables.flatten = (dedup (D.map v)).map mk := by
+      have h1 : evalPre cq tables.flatten = dedupBy OutRow.vis ((groupRows g tables.flatten).map (outOf cq)) := by
+        simp [evalPre, groupsOf, CQ.aggregated, hg, hd]
+      rw [h1]
+      have h2 : (groupRows g tables.flatten).map (outOf cq) = (D.map v).map mk := by
+        simp only [groupRows, List.map_map, D]
+        apply List.map_congr_left
+        intro k _
+        exact houtmk k
+      rw [h2]
+      simp only [dedupBy, dedup]
+      apply dedupByAux_map_section
+      intro a _
+      rfl
+    rw [href]
+    refine ((List.mergeSort_perm A LF).map _).trans ?_
+    have h3 : A.map (toOut W cols) = (A.map (List.take W)).map mk := by
+      rw [List.map_map]
+      apply List.map_congr_left
+      intro x _
+      exact htoOut x
+    rw [h3]
+    apply List.Perm.map
+    have h4 : A.map (List.take W) = dedup (merged.map (List.take W)) := by
+      simp only [A, dedupBy, dedup, map_dedupByAux]
+    rw [h4, hmv]
+    exact dedup_perm (hK.map v)
+  · rw [List.pairwise_map]
+    exact List.pairwise_mergeSort (leFull_trans _ _) (leFull_total _ _) _
+  · rw [hres, window_map, List.map_map]
+    apply List.map_congr_left
+    intro r _
+    rfl
+
+end
+
+/-! ### SELECT DISTINCT with hidden copies of selected expressions -/
+
+/-- the value of a selected item, read from the visible row -/
+def visVal (items : List Item) (x : Row) (it : Item) : Val := x.getD (items.idxOf it) .null
+
+theorem visVal_vis (items : List Item) (G : List Row) (it : Item) (h : it ∈ items) :
+    visVal items (items.map (evalItem G)) it = evalItem G it := by
+  have hlt : items.idxOf it < items.length := List.idxOf_lt_length_of_mem h
+  simp only [visVal, List.getD, List.getElem?_map, List.getElem?_eq_getElem hlt, Option.map_some, Option.getD_some]
+  rw [List.getElem_idxOf hlt]
+
+/-- when ORDER BY names selected expressions only, an answer row is determined by its visible part -/
+theorem outOf_of_vis (cq : CQ) (hvis : ∀ k ∈ cq.keys, k.1 ∈ cq.items) (G : List Row) :
+    outOf cq G = { vis := (outOf cq G).vis, key := cq.keys.map fun k => visVal cq.items (outOf cq G).vis k.1 } := by
+  simp only [outOf]
+  congr 1
+  apply List.map_congr_left
+  intro k hk
+  exact (visVal_vis cq.items G k.1 (hvis k hk)).symm
+
+theorem dedupByAux_map {α β γ : Type} [DecidableEq γ] (f : β → γ) (g : α → β) : ∀ (l : List α) (seen : List γ),
+    dedupByAux f seen (l.map g) = (dedupByAux (fun x => f (g x)) seen l).map g
+  | [], _ => rfl
+  | a :: l, seen => by
+    simp only [List.map_cons, dedupByAux]
+    split
+    · exact dedupByAux_map f g l seen
+    · simp only [List.map_cons]; congr 1; exact dedupByAux_map f g l _
+
+section
+variable {schema : List Ty} {p : Plan} {cq cq' : CQ}
+
+/-- when every hidden column repeats a selected expression, the per-table row is determined by its visible part -/
+theorem fullRow_of_vis (inv : PlanInv schema p cq cq') (hdup : ∀ it ∈ cq'.items.drop cq.items.length, it ∈ cq.items)
+    (G G' : List Row) (e : fullRow cq.items G = fullRow cq.items G') : fullRow cq'.items G = fullRow cq'.items G' := by
+  have hsplit : cq'.items = cq.items ++ cq'.items.drop cq.items.length := by
+    conv => lhs; rw [← List.take_append_drop cq.items.length cq'.items, inv.items]
+  have hpt : ∀ it ∈ cq.items, evalItem G it = evalItem G' it := by
+    intro it hit
+    have := visVal_vis cq.items G it hit
+    have h2 := visVal_vis cq.items G' it hit
+    simp only [fullRow] at e
+    rw [← this, ← h2, e]
+  rw [hsplit]
+  simp only [fullRow, List.map_append]
+  congr 1
+  apply List.map_congr_left
+  intro it hit
+  exact hpt it (hdup it hit)
+
+/-- **SELECT DISTINCT without aggregation; hidden columns only as copies of selected ones**: the
+    sub-tables return their distinct rows (sorted, cut to `offset+count`), the
+    merge removes the duplicates between the sub-tables under the (injective)
+    row key, sorts and cuts. -/
+theorem merge_plain_distinct2 (inv : PlanInv schema p cq cq') (h : cq.aggregated = false) (h' : cq'.aggregated = false)
+    (hd : cq.distinct = true) (hdup : ∀ it ∈ cq'.items.drop cq.items.length, it ∈ cq.items)
+    (tables : List (List Row)) (hne : tables ≠ [])
+    (hkey : ∀ r ∈ tables.flatten, ∀ r' ∈ tables.flatten,
+      generateMapKey (fullRow cq.items [r]) = generateMapKey (fullRow cq.items [r']) →
+      fullRow cq.items [r] = fullRow cq.items [r'])
+    (res : Result) (hm : mergeSelectResult p (tables.map (shardResult cq')) = .ok res) :
+    Answer cq tables.flatten res.rows := by
+  let LF := leFull cq.dirs (sortCols p cq')
+  let full := fun r : Row => fullRow cq'.items [r]
+  let W := cq.items.length
+  have hfull : ∀ r r' : Row, fullRow cq.items [r] = fullRow cq.items [r'] → full r = full r' :=
+    fun r r' e => fullRow_of_vis inv hdup [r] [r'] e
+  have htakeW : ∀ r : Row, (full r).take W = fullRow cq.items [r] := fun r => inv_take inv [r]
+  have htake_inj : ∀ a ∈ tables.flatten.map full, ∀ b ∈ tables.flatten.map full, a.take W = b.take W → a = b := by
+    intro a ha b hb e
+    obtain ⟨ra, _, rfl⟩ := List.mem_map.mp ha
+    obtain ⟨rb, _, rfl⟩ := List.mem_map.mp hb
+    rw [htakeW, htakeW] at e
+    exact hfull ra rb e
+  have hgroup : cq.group = none := by
+    simp only [CQ.aggregated, Bool.or_eq_false_iff] at h
+    cases hg : cq.group with
+    | none => rfl
+    | some g => rw [hg] at h; simp at h
+  have hpg : p.hasGroupBy = false := by rw [inv.pgroup, hgroup]; rfl
+  have hpd : p.distinct = true := by rw [inv.pdistinct]; exact hd
+  have haggs : p.aggs = [] := by
+    rw [inv.aggs]
+    apply aggPositions_nil_of_no_agg
+    simp only [CQ.aggregated, Bool.or_eq_false_iff, List.any_eq_false] at h'
+    intro it hit
+    have := h'.1.2 it hit
+    simpa using this
+  -- the shard lists: distinct rows of each sub-table, sorted
+  let Ls : List (List Row) := tables.map fun t => (dedup (t.map full)).mergeSort LF
+  have hLs_mem : ∀ x, x ∈ Ls.flatten ↔ x ∈ tables.flatten.map full := by
+    intro x
+    simp only [Ls, List.mem_flatten, List.mem_map]
+    constructor
+    · rintro ⟨l, ⟨t, ht, rfl⟩, hx⟩
+      rw [List.mem_mergeSort, mem_dedup] at hx
+      obtain ⟨r, hr, rfl⟩ := List.mem_map.mp hx
+      exact ⟨r, ⟨t, ht, hr⟩, rfl⟩
+    · rintro ⟨r, ⟨t, ht, hr⟩, rfl⟩
+      exact ⟨_, ⟨t, ht, rfl⟩, by rw [List.mem_mergeSort, mem_dedup]; exact List.mem_map.mpr ⟨r, hr, rfl⟩⟩
+  -- merge the result sets
+  obtain ⟨T, Ts, hT⟩ := List.exists_cons_of_ne_nil hne
+  rw [mergeSelectResult_eq] at hm
+  have hmm : mergeMultiResultSet (tables.map (shardResult cq')) =
+      .ok { nfields := cq'.items.length, rows := (Ls.map (window cq'.limit)).flatten } := by
+    rw [hT, List.map_cons, mergeMulti_uniform cq'.items.length (shardResult cq' T) (Ts.map (shardResult cq')) rfl
+      (by intro x hx; obtain ⟨t, _, rfl⟩ := List.mem_map.mp hx; rfl)]
+    congr 2
+    rw [← List.map_cons (f := shardResult cq'), ← hT]
+    simp only [Ls, List.map_map]
+    congr 1
+    apply List.map_congr_left
+    intro t _
+    exact shard_plain_distinct inv h' hd t
+  rw [hmm] at hm
+  let flat := (Ls.map (window cq'.limit)).flatten
+  have hflat_sub : ∀ x ∈ flat, x ∈ tables.flatten.map full := by
+    intro x hx
+    simp only [flat, List.mem_flatten, List.mem_map] at hx
+    obtain ⟨l, ⟨L, hL, rfl⟩, hxl⟩ := hx
+    exact (hLs_mem x).mp (List.mem_flatten.mpr ⟨L, hL, mem_window _ _ _ hxl⟩)
+  have hflat_len : ∀ x ∈ flat, x.length = cq'.items.length := by
+    intro x hx
+    obtain ⟨r, _, rfl⟩ := List.mem_map.mp (hflat_sub x hx)
+    exact fullRow_length _ _
+  have hdistinct : removeDistinctRowInResult p { nfields := cq'.items.length, rows := flat } =
+      .ok { nfields := cq'.items.length, rows := dedup flat } := by
+    rw [removeDistinct_spec inv flat hflat_len]
+    have h1 : dedupBy (fun r : Row => generateMapKey (r.take W)) flat = dedupBy (List.take W) flat := by
+      apply dedupBy_comp_inj (List.take W) generateMapKey flat
+      intro a ha b hb e
+      obtain ⟨xa, hxa, rfl⟩ := List.mem_map.mp ha
+      obtain ⟨xb, hxb, rfl⟩ := List.mem_map.mp hb
+      obtain ⟨ra, hra, rfl⟩ := List.mem_map.mp (hflat_sub xa hxa)
+      obtain ⟨rb, hrb, rfl⟩ := List.mem_map.mp (hflat_sub xb hxb)
+      rw [htakeW, htakeW] at e ⊢
+      exact hkey ra hra rb hrb e
+    have h2 : dedupBy (List.take W) flat = dedup flat :=
+      dedupBy_eq_dedup (List.take W) flat (fun a ha b hb e => htake_inj a (hflat_sub a ha) b (hflat_sub b hb) e)
+    rw [h1, h2]
+  simp only [R.bind_ok, hpg, hpd, Bool.false_eq_true, if_false, if_true, buildSelectOnlyResult, haggs,
+    List.isEmpty_nil] at hm
+  rw [hdistinct] at hm
+  simp only [R.bind_ok] at hm
+  have hres := mergeTail_spec inv _ res rfl (by
+    intro x hx
+    exact hflat_len x ((mem_dedup _ _).mp hx)) hm
+  -- the reference rows
+  let Dall := dedup (tables.flatten.map full)
+  have hLs_sorted : ∀ L ∈ Ls, L.Pairwise (fun a b => LF a b = true) := by
+    intro L hL
+    obtain ⟨t, _, rfl⟩ := List.mem_map.mp hL
+    exact List.pairwise_mergeSort (leFull_trans _ _) (leFull_total _ _) _
+  have hLs_nodup : ∀ L ∈ Ls, L.Nodup := by
+    intro L hL
+    obtain ⟨t, _, rfl⟩ := List.mem_map.mp hL
+    exact (List.mergeSort_perm _ _).nodup_iff.mpr (nodup_dedup _)
+  have hS : ∃ S : List Row, S.Perm Dall ∧ S.Pairwise (fun a b => LF a b = true) ∧
+      window cq.limit S = window cq.limit ((dedup flat).mergeSort LF) := by
+    have hl := inv.limit
+    -- without a per-table LIMIT the candidates are all rows
+    have hall : cq'.limit = none → (dedup flat).Perm Dall := by
+      intro hnone
+      rw [List.perm_ext_iff_of_nodup (nodup_dedup _) (nodup_dedup _)]
+      intro x
+      rw [mem_dedup, mem_dedup]
+      simp only [flat, hnone, map_window_none]
+      exact hLs_mem x
+    cases hlim : cq.limit with
+    | none =>
+      rw [hlim] at hl
+      exact ⟨(dedup flat).mergeSort LF, (List.mergeSort_perm _ _).trans (hall hl.2),
+        List.pairwise_mergeSort (leFull_trans _ _) (leFull_total _ _) _, rfl⟩
+    | some oc =>
+      obtain ⟨o, c⟩ := oc
+      rw [hlim] at hl
+      rcases hl.2.2 with hl' | hl'
+      · -- the candidates P and the rest R
+        let P := dedup flat
+        let R := Dall.filter fun x => x ∉ P
+        have hP_sub : ∀ x ∈ P, x ∈ Dall := by
+          intro x hx
+          exact (mem_dedup _ _).mpr (hflat_sub x ((mem_dedup _ _).mp hx))
+        have hPR : (P ++ R).Perm Dall := by
+          rw [List.perm_ext_iff_of_nodup _ (nodup_dedup _)]
+          · intro x
+            simp only [R, List.mem_append, List.mem_filter, decide_eq_true_eq]
+            constructor
+            · rintro (hx | ⟨hx, _⟩)
+              · exact hP_sub x hx
+              · exact hx
+            · intro hx
+              by_cases hxP : x ∈ P
+              · exact Or.inl hxP
+              · exact Or.inr ⟨hx, hxP⟩
+          · rw [List.nodup_append]
+            refine ⟨nodup_dedup _, (nodup_dedup _).filter _, ?_⟩
+            intro a ha b hb e
+            simp only [R, List.mem_filter, decide_eq_true_eq] at hb
+            exact hb.2 (e ▸ ha)
+        have H : ∀ r ∈ R, o + c ≤ countLe LF P r := by
+          intro r hr
+          simp only [R, List.mem_filter, decide_eq_true_eq] at hr
+          obtain ⟨hrD, hrP⟩ := hr
+          have hrL : r ∈ Ls.flatten := (hLs_mem r).mpr ((mem_dedup _ _).mp hrD)
+          obtain ⟨L, hL, hrL'⟩ := List.mem_flatten.mp hrL
+          have hnot : r ∉ L.take (o + c) := by
+            intro hin
+            apply hrP
+            rw [mem_dedup]
+            simp only [flat, hl', map_window_take]
+            exact List.mem_flatten.mpr ⟨_, List.mem_map.mpr ⟨L, hL, rfl⟩, hin⟩
+          have hdrop : r ∈ L.drop (o + c) := by
+            have := List.take_append_drop (o + c) L
+            rw [← this] at hrL'
+            rcases List.mem_append.mp hrL' with h1 | h1
+            · exact absurd h1 hnot
+            · exact h1
+          have hsL := hLs_sorted L hL
+          have hlen : o + c < L.length := by
+            have := List.length_pos_of_mem hdrop
+            simp at this; omega
+          have hall' : ∀ x ∈ L.take (o + c), LF x r = true := by
+            rw [← List.take_append_drop (o + c) L, List.pairwise_append] at hsL
+            exact fun x hx => hsL.2.2 x hx r hdrop
+          have hcount := nodup_length_le_filter (L.take (o + c)) P (fun x => LF x r)
+            ((hLs_nodup L hL).sublist (List.take_sublist _ _)) (by
+              intro x hx
+              refine ⟨?_, hall' x hx⟩
+              rw [mem_dedup]
+              simp only [flat, hl', map_window_take]
+              exact List.mem_flatten.mpr ⟨_, List.mem_map.mpr ⟨L, hL, rfl⟩, hx⟩)
+          simp only [List.length_take] at hcount
+          simp only [countLe]
+          omega
+        obtain ⟨S, hp, hs, hwin⟩ := topk_core (leFull_trans _ _) (leFull_total _ _) P R o c H
+        exact ⟨S, hp.trans hPR, hs, by simpa [window] using hwin⟩
+      · exact ⟨(dedup flat).mergeSort LF, (List.mergeSort_perm _ _).trans (hall hl'),
+          List.pairwise_mergeSort (leFull_trans _ _) (leFull_total _ _) _, rfl⟩
+  obtain ⟨S, hSp, hSs, hSw⟩ := hS
+  refine ⟨S.map (toOut cq.items.length (sortCols p cq')), ?_, ?_, ?_⟩
+  · rw [evalPre_plain_distinct cq h hd]
+    have e1 : (tables.flatten.map fun r => outOf cq [r]) =
+        (tables.flatten.map full).map (toOut cq.items.length (sortCols p cq')) := by
+      simp only [List.map_map]
+      apply List.map_congr_left
+      intro r _
+      exact (inv_toOut inv [r]).symm
+    rw [e1]
+    have e2 : dedupBy OutRow.vis ((tables.flatten.map full).map (toOut cq.items.length (sortCols p cq')))
+        = Dall.map (toOut cq.items.length (sortCols p cq')) := by
+      simp only [dedupBy]
+      rw [dedupByAux_map]
+      congr 1
+      exact dedupBy_eq_dedup (List.take W) (tables.flatten.map full) htake_inj
+    rw [e2]
+    exact hSp.map _
+  · rw [List.pairwise_map]
+    exact hSs
+  · rw [hres, ← hSw, window_map, List.map_map]
+    apply List.map_congr_left
+    intro r _
+    rfl
+
+
+/-- **SELECT DISTINCT over a GROUP BY statement** (no per-table LIMIT; ORDER BY names
+    selected expressions only — possibly through a hidden copy of the column): the sub-tables return their groups (DISTINCT removes
+    nothing there, the GROUP BY columns are among the columns they return), the
+    groups are merged, then DISTINCT keeps one row per visible row. -/
+theorem merge_group_distinct2 (inv : PlanInv schema p cq cq') (g : List Nat) (hg : cq.group = some g)
+    (hd : cq.distinct = true) (hlim : cq'.limit = none)
+    (hvis : ∀ k ∈ cq.keys, k.1 ∈ cq.items)
+    (tables : List (List Row)) (hne : tables ≠ []) (htyped : ∀ t ∈ tables, TypedRows schema t)
+    (hkey : ∀ r ∈ tables.flatten, ∀ r' ∈ tables.flatten,
+      generateMapKey (groupKey g r) = generateMapKey (groupKey g r') → groupKey g r = groupKey g r')
+    (hrow : ∀ G ∈ groupRows g tables.flatten, ∀ G' ∈ groupRows g tables.flatten,
+      generateMapKey (outOf cq G).vis = generateMapKey (outOf cq G').vis → (outOf cq G).vis = (outOf cq G').vis)
+    (res : Result) (hm : mergeSelectResult p (tables.map (shardResult cq')) = .ok res) :
+    Answer cq tables.flatten res.rows := by
+  have hg' : cq'.group = some g := by rw [inv.group]; exact hg
+  have hpg : p.hasGroupBy = true := by rw [inv.pgroup, hg]; rfl
+  have hpd : p.distinct = true := by rw [inv.pdistinct]; exact hd
+  let Cs : List (List (List Row)) := tables.map (chunksOf cq' g)
+  let kc := kcOf g
+  -- the chunks: groups of some sub-table
+  have hchunk : ∀ c ∈ Cs.flatten, ∃ t ∈ tables, c ∈ groupRows g t := by
+    intro c hc
+    obtain ⟨C, hC, hcC⟩ := List.mem_flatten.mp hc
+    obtain ⟨t, ht, rfl⟩ := List.mem_map.mp hC
+    exact ⟨t, ht, (chunksOf_perm cq' g t).mem_iff.mp hcC⟩
+  have hgrpItems := inv.grp g hg
+  have hchunkOK : ∀ c ∈ Cs.flatten, c ≠ [] ∧ TypedRows schema c ∧
+      keySliceOf p.groupByColumn (planDelta p cq') (fullRow cq'.items c) = .ok (kc c) := by
+    intro c hc
+    obtain ⟨t, ht, hct⟩ := hchunk c hc
+    obtain ⟨hne', hfil, _⟩ := groupRows_mem g t c hct
+    refine ⟨hne', ?_, ?_⟩
+    · rw [hfil]; exact typedRows_filter t _ (htyped t ht)
+    · have hr := inRange_of_itemAt cq'.items (fullRow cq'.items c) (fullRow_length _ _) (groupCols' p cq')
+        (g.map Item.col) (by rw [hgrpItems]; simp)
+      rw [keySliceOf_spec _ _ _ hr]
+      have := keyAt_of_itemAt cq'.items c (groupCols' p cq') (g.map Item.col) (by rw [hgrpItems]; simp)
+      simp only [groupCols'] at this
+      rw [this]
+      cases c with
+      | nil => exact absurd rfl hne'
+      | cons r rs => simp [kc, kcOf, List.map_map, groupKey, evalItem]
+  have hkc_mem : ∀ c ∈ Cs.flatten, ∃ r ∈ tables.flatten, kc c = groupKey g r := by
+    intro c hc
+    obtain ⟨t, ht, hct⟩ := hchunk c hc
+    obtain ⟨_, _, hk⟩ := groupRows_mem g t c hct
+    obtain ⟨r, hr, hrk⟩ := List.mem_map.mp hk
+    exact ⟨r, List.mem_flatten.mpr ⟨t, ht, hr⟩, hrk.symm⟩
+  have hinj : ∀ c ∈ Cs.flatten, ∀ c' ∈ Cs.flatten,
+      generateMapKey (kc c) = generateMapKey (kc c') → kc c = kc c' := by
+    intro c hc c' hc' e
+    obtain ⟨r, hr, h1⟩ := hkc_mem c hc
+    obtain ⟨r', hr', h2⟩ := hkc_mem c' hc'
+    rw [h1, h2] at e ⊢
+    exact hkey r hr r' hr' e
+  -- the merged result sets
+  obtain ⟨T, Ts, hT⟩ := List.exists_cons_of_ne_nil hne
+  rw [mergeSelectResult_eq] at hm
+  have hmm : mergeMultiResultSet (tables.map (shardResult cq')) =
+      .ok { nfields := cq'.items.length, rows := Cs.flatten.map (fullRow cq'.items) } := by
+    rw [hT, List.map_cons, mergeMulti_uniform cq'.items.length (shardResult cq' T) (Ts.map (shardResult cq')) rfl
+      (by intro x hx; obtain ⟨t, _, rfl⟩ := List.mem_map.mp hx; rfl)]
+    congr 2
+    rw [← List.map_cons (f := shardResult cq'), ← hT]
+    simp only [Cs, List.map_map, List.map_flatten]
+    congr 1
+    apply List.map_congr_left
+    intro t _
+    simp only [Function.comp, shardResult, evalCQ, hlim, window]
+    exact sorted_group' cq' g t (evalPre_group_nodup cq' g hg' t (shard_vis_nodup inv g hg t))
+  rw [hmm] at hm
+  simp only [R.bind_ok, hpg, if_true, hpd] at hm
+  have hloop := groupLoop_chunks (schema := schema) p (planDelta p cq') cq'.items kc inv.aggs inv.aggOK
+    Cs.flatten [] (by simpa using hchunkOK) (by simpa using hinj)
+  have hstate0 : chunkState cq'.items kc [] = [] := by simp [chunkState, dedup, dedupAux]
+  rw [hstate0, List.nil_append] at hloop
+  have hdelta : delta p { nfields := cq'.items.length, rows := Cs.flatten.map (fullRow cq'.items) } = planDelta p cq' := by
+    simp [delta, planDelta]
+  simp only [buildSelectGroupByResult, hdelta, hloop, R.bind_ok] at hm
+  -- the merged rows
+  let K1 := dedup (Cs.flatten.map kc)
+  let tru : List Val → List Row := fun k => tables.flatten.filter fun r => groupKey g r = k
+  have hrowsAll : ∀ k, chunkRows kc Cs.flatten k = tru k :=
+    chunkRows_all g tables Cs (by simp [Cs]) (fun i h1 h2 => by
+      simp only [Cs, List.getElem_map]
+      exact chunksOf_perm cq' g _)
+  have hmerged : (chunkState cq'.items kc Cs.flatten).map (·.2) =
+      K1.map fun k => fullRow cq'.items (tru k) := by
+    simp only [chunkState, K1, List.map_map]
+    apply List.map_congr_left
+    intro k _
+    simp only [Function.comp, hrowsAll]
+  rw [hmerged] at hm
+  let merged := K1.map fun k => fullRow cq'.items (tru k)
+  have hlenm : ∀ x ∈ merged, x.length = cq'.items.length := by
+    intro x hx
+    obtain ⟨k, _, rfl⟩ := List.mem_map.mp hx
+    exact fullRow_length _ _
+  let D := dedup (tables.flatten.map (groupKey g))
+  have hK : K1.Perm D := by
+    rw [List.perm_ext_iff_of_nodup (nodup_dedup _) (nodup_dedup _)]
+    intro k
+    rw [mem_dedup, mem_dedup]
+    constructor
+    · intro hk
+      obtain ⟨c, hc, rfl⟩ := List.mem_map.mp hk
+      obtain ⟨r, hr, h1⟩ := hkc_mem c hc
+      exact List.mem_map.mpr ⟨r, hr, h1.symm⟩
+    · intro hk
+      obtain ⟨r, hr, rfl⟩ := List.mem_map.mp hk
+      obtain ⟨t, ht, hrt⟩ := List.mem_flatten.mp hr
+      have hkt : groupKey g r ∈ t.map (groupKey g) := List.mem_map.mpr ⟨r, hrt, rfl⟩
+      have hc : (t.filter fun r' => groupKey g r' = groupKey g r) ∈ groupRows g t := by
+        simp only [groupRows, List.mem_map]
+        exact ⟨groupKey g r, (mem_dedup _ _).mpr hkt, rfl⟩
+      have hc' : (t.filter fun r' => groupKey g r' = groupKey g r) ∈ Cs.flatten :=
+        List.mem_flatten.mpr ⟨chunksOf cq' g t, List.mem_map.mpr ⟨t, ht, rfl⟩,
+          (chunksOf_perm cq' g t).mem_iff.mpr hc⟩
+      exact List.mem_map.mpr ⟨_, hc', kcOf_filter g t _ hkt⟩
+  -- the DISTINCT step: one row per visible row
+  let W := cq.items.length
+  let v : List Val → Row := fun k => (outOf cq (tru k)).vis
+  have hvtake : ∀ k, (fullRow cq'.items (tru k)).take W = v k := by
+    intro k
+    simp only [v, W, outOf, inv_take inv]
+  have hmv : merged.map (List.take W) = K1.map v := by
+    simp only [merged, List.map_map]
+    apply List.map_congr_left
+    intro k _
+    exact hvtake k
+  rw [removeDistinct_spec inv merged hlenm] at hm
+  have hdd : dedupBy (fun r : Row => generateMapKey (r.take W)) merged = dedupBy (List.take W) merged := by
+    apply dedupBy_comp_inj (List.take W) generateMapKey merged
+    rw [hmv]
+    intro a ha b hb e
+    obtain ⟨ka, hka, rfl⟩ := List.mem_map.mp ha
+    obtain ⟨kb, hkb, rfl⟩ := List.mem_map.mp hb
+    have hga : tru ka ∈ groupRows g tables.flatten := by
+      simp only [groupRows, List.mem_map]
+      exact ⟨ka, hK.mem_iff.mp hka, rfl⟩
+    have hgb : tru kb ∈ groupRows g tables.flatten := by
+      simp only [groupRows, List.mem_map]
+      exact ⟨kb, hK.mem_iff.mp hkb, rfl⟩
+    exact hrow _ hga _ hgb e
+  rw [hdd] at hm
+  simp only [R.bind_ok] at hm
+  let A := dedupBy (List.take W) merged
+  have hA_sub : ∀ x ∈ A, x ∈ merged := fun x hx => mem_dedupByAux _ _ _ x hx
+  have hres := mergeTail_spec inv _ res rfl (fun x hx => hlenm x (hA_sub x hx)) hm
+  let LF := leFull cq.dirs (sortCols p cq')
+  let cols := sortCols p cq'
+  let mk : Row → OutRow := fun x => { vis := x, key := cq.keys.map fun k => visVal cq.items x k.1 }
+  have houtmk : ∀ k, outOf cq (tru k) = mk (v k) := by
+    intro k
+    exact outOf_of_vis cq hvis (tru k)
+  have htoOut : ∀ x ∈ merged, toOut W cols x = mk (x.take W) := by
+    intro x hx
+    obtain ⟨k, _, rfl⟩ := List.mem_map.mp hx
+    rw [inv_toOut inv, hvtake, houtmk]
+  refine ⟨(A.mergeSort LF).map (toOut W cols), ?_, ?_, ?_⟩
+  · -- the reference rows
+    have href : evalPre cq tables.flatten = (dedup (D.map v)).map mk := by
+      have h1 : evalPre cq tables.flatten = dedupBy OutRow.vis ((groupRows g tables.flatten).map (outOf cq)) := by
+        simp [evalPre, groupsOf, CQ.aggregated, hg, hd]
+      rw [h1]
+      have h2 : (groupRows g tables.flatten).map (outOf cq) = (D.map v).map mk := by
+        simp only [groupRows, List.map_map, D]
+        apply List.map_congr_left
+        intro k _
+        exact houtmk k
+      rw [h2]
+      simp only [dedupBy, dedup]
+      apply dedupByAux_map_section
+      intro a _
+      rfl
+    rw [href]
+    refine ((List.mergeSort_perm A LF).map _).trans ?_
+    have h3 : A.map (toOut W cols) = (A.map (List.take W)).map mk := by
+      rw [List.map_map]
+      apply List.map_congr_left
+      intro x hx
+      exact htoOut x (hA_sub x hx)
+    rw [h3]
+    apply List.Perm.map
+    have h4 : A.map (List.take W) = dedup (merged.map (List.take W)) := by
+      simp only [A, dedupBy, dedup, map_dedupByAux]
+    rw [h4, hmv]
+    exact dedup_perm (hK.map v)
+  · rw [List.pairwise_map]
+    exact List.pairwise_mergeSort (leFull_trans _ _) (leFull_total _ _) _
+  · rw [hres, window_map, List.map_map]
+    apply List.map_congr_left
+    intro r _
+    rfl
+
+
+end
+
+/-! ### GROUP BY with the per-table LIMIT kept, under SELECT DISTINCT -/
+
+/-- the DISTINCT row key is injective on the visible rows computed from any rows of the
+    tables (the rows the proxy holds while some sub-table has cut a group off by its LIMIT
+    are computed from a part of the group) -/
+def SubVisKeyInj (cq : CQ) (rows : List Row) : Prop :=
+  ∀ X X' : List Row, X.Sublist rows → X'.Sublist rows →
+    generateMapKey (outOf cq X).vis = generateMapKey (outOf cq X').vis → (outOf cq X).vis = (outOf cq X').vis
+
+theorem sublist_flatten_of_sublist {α : Type} {l l' : List (List α)} (h : l.Sublist l') : l.flatten.Sublist l'.flatten := by
+  induction h with
+  | slnil => exact List.Sublist.refl _
+  | cons a _ ih => simp only [List.flatten_cons]; exact List.sublist_append_of_sublist_right ih
+  | cons_cons a _ ih => simp only [List.flatten_cons]; exact List.Sublist.append (List.Sublist.refl a) ih
+
+theorem flatten_sublist_of_forall {α : Type} (f : List α → List α) : ∀ (ts : List (List α)),
+    (∀ t ∈ ts, (f t).Sublist t) → (ts.map f).flatten.Sublist ts.flatten
+  | [], _ => by simp
+  | t :: ts, h => by
+    simp only [List.map_cons, List.flatten_cons]
+    exact List.Sublist.append (h t (by simp)) (flatten_sublist_of_forall f ts (fun x hx => h x (by simp [hx])))
+
+theorem shard_group_limit' (cq' : CQ) (g : List Nat) (n : Nat) (hlim : cq'.limit = some (0, n)) (T : List Row)
+    (hpre : evalPre cq' T = (groupRows g T).map (outOf cq')) :
+    (evalCQ cq' T).map (·.vis) = ((chunksOf cq' g T).take n).map (fullRow cq'.items) := by
+  simp only [evalCQ, hlim, ← window_map, sorted_group' cq' g T hpre]
+  simp [window, List.map_take]
+
+/-- when ORDER BY names selected expressions only and starts with all GROUP BY columns, the
+    GROUP BY key of a group can be read from its visible row -/
+theorem key_of_vis (cq : CQ) (g : List Nat) (hsel : ∀ k ∈ cq.keys, k.1 ∈ cq.items)
+    (hcov : leadCovers g cq.keys = true) (r r' : Row) (rs rs' : List Row)
+    (e : (outOf cq (r :: rs)).vis = (outOf cq (r' :: rs')).vis) : groupKey g r = groupKey g r' := by
+  simp only [groupKey]
+  apply List.map_congr_left
+  intro c hc
+  have hlead : c ∈ leadCols g cq.keys := by
+    have := List.all_eq_true.mp hcov c hc
+    simpa using this
+  have hmem : Item.col c ∈ (cq.keys.take (leadCols g cq.keys).length).map (·.1) := by
+    rw [leadCols_take]; exact List.mem_map.mpr ⟨c, hlead, rfl⟩
+  obtain ⟨k, hk, hk1⟩ := List.mem_map.mp hmem
+  have hitem : Item.col c ∈ cq.items := by rw [← hk1]; exact hsel k (List.mem_of_mem_take hk)
+  have h1 := visVal_vis cq.items (r :: rs) (.col c) hitem
+  have h2 := visVal_vis cq.items (r' :: rs') (.col c) hitem
+  simp only [outOf] at e
+  rw [e] at h1
+  rw [h1] at h2
+  simpa [evalItem] using h2
+
+section
+variable {schema : List Ty} {p : Plan} {cq cq' : CQ}
+
+/-- **GROUP BY with the per-table LIMIT kept, with or without SELECT DISTINCT** (ORDER BY starts with the GROUP BY
+    columns and names all of them, so that the order of the groups is that of
+    their keys): every sub-table returns its first `offset+count` groups; the
+    groups among the first `offset+count` of the union are among the first
+    `offset+count` of every sub-table that holds them, so their merged rows are
+    complete, and they sort before every other (possibly incomplete) candidate. -/
+theorem merge_group_limit_any (inv : PlanInv schema p cq cq') (g : List Nat) (hg : cq.group = some g)
+    (n : Nat) (hlim : cq'.limit = some (0, n)) (hcov : leadCovers g cq.keys = true)
+    (tables : List (List Row)) (hne : tables ≠ []) (htyped : ∀ t ∈ tables, TypedRows schema t)
+    (hkey : ∀ r ∈ tables.flatten, ∀ r' ∈ tables.flatten,
+      generateMapKey (groupKey g r) = generateMapKey (groupKey g r') → groupKey g r = groupKey g r')
+    (hdist : cq.distinct = true → (∀ k ∈ cq.keys, k.1 ∈ cq.items) ∧ SubVisKeyInj cq tables.flatten)
+    (res : Result) (hm : mergeSelectResult p (tables.map (shardResult cq')) = .ok res) :
+    Answer cq tables.flatten res.rows := by
+  have hg' : cq'.group = some g := by rw [inv.group]; exact hg
+  have hpg : p.hasGroupBy = true := by rw [inv.pgroup, hg]; rfl
+  have hkeys' : cq'.keys = cq.keys := inv.keys
+  -- the LIMIT of the statement
+  obtain ⟨o, c, hcl, hn⟩ : ∃ o c, cq.limit = some (o, c) ∧ n = o + c := by
+    have hl := inv.limit
+    cases hlim' : cq.limit with
+    | none => rw [hlim'] at hl; rw [hl.2] at hlim; cases hlim
+    | some oc =>
+      obtain ⟨o, c⟩ := oc
+      rw [hlim'] at hl
+      rcases hl.2.2 with h1 | h1
+      · rw [h1] at hlim
+        simp only [Option.some.injEq, Prod.mk.injEq, true_and] at hlim
+        exact ⟨o, c, rfl, hlim.symm⟩
+      · rw [h1] at hlim; cases hlim
+  subst hn
+  let lead := leadCols g cq.keys
+  let leK := leG g lead cq.dirs
+  have ktrans : ∀ a b c, leK a b → leK b c → leK a c := fun a b c => leG_trans g lead cq.dirs a b c
+  have ktotal : ∀ a b, leK a b || leK b a := fun a b => leG_total g lead cq.dirs a b
+  let kc := kcOf g
+  let All : List (List (List Row)) := tables.map (chunksOf cq' g)
+  let Cs : List (List (List Row)) := All.map (List.take (o + c))
+  let Ls : List (List (List Val)) := All.map (List.map kc)
+  -- the chunks: groups of some sub-table
+  have hchunkAll : ∀ x ∈ All.flatten, ∃ t ∈ tables, x ∈ groupRows g t := by
+    intro x hx
+    obtain ⟨C, hC, hxC⟩ := List.mem_flatten.mp hx
+    obtain ⟨t, ht, rfl⟩ := List.mem_map.mp hC
+    exact ⟨t, ht, (chunksOf_perm cq' g t).mem_iff.mp hxC⟩
+  have hkept_sub : ∀ x ∈ Cs.flatten, x ∈ All.flatten := by
+    intro x hx
+    obtain ⟨C', hC', hxC'⟩ := List.mem_flatten.mp hx
+    obtain ⟨C, hC, rfl⟩ := List.mem_map.mp hC'
+    exact List.mem_flatten.mpr ⟨C, hC, List.mem_of_mem_take hxC'⟩
+  have hchunk : ∀ x ∈ Cs.flatten, ∃ t ∈ tables, x ∈ groupRows g t := fun x hx => hchunkAll x (hkept_sub x hx)
+  have hgrpItems := inv.grp g hg
+  have hchunkOK : ∀ x ∈ Cs.flatten, x ≠ [] ∧ TypedRows schema x ∧
+      keySliceOf p.groupByColumn (planDelta p cq') (fullRow cq'.items x) = .ok (kc x) := by
+    intro x hx
+    obtain ⟨t, ht, hct⟩ := hchunk x hx
+    obtain ⟨hne', hfil, _⟩ := groupRows_mem g t x hct
+    refine ⟨hne', ?_, ?_⟩
+    · rw [hfil]; exact typedRows_filter t _ (htyped t ht)
+    · have hr := inRange_of_itemAt cq'.items (fullRow cq'.items x) (fullRow_length _ _) (groupCols' p cq')
+        (g.map Item.col) (by rw [hgrpItems]; simp)
+      rw [keySliceOf_spec _ _ _ hr]
+      have := keyAt_of_itemAt cq'.items x (groupCols' p cq') (g.map Item.col) (by rw [hgrpItems]; simp)
+      simp only [groupCols'] at this
+      rw [this]
+      cases x with
+      | nil => exact absurd rfl hne'
+      | cons r rs => simp [kc, kcOf, List.map_map, groupKey, evalItem]
+  have hkc_memAll : ∀ x ∈ All.flatten, ∃ r ∈ tables.flatten, kc x = groupKey g r := by
+    intro x hx
+    obtain ⟨t, ht, hct⟩ := hchunkAll x hx
+    obtain ⟨_, _, hk⟩ := groupRows_mem g t x hct
+    obtain ⟨r, hr, hrk⟩ := List.mem_map.mp hk
+    exact ⟨r, List.mem_flatten.mpr ⟨t, ht, hr⟩, hrk.symm⟩
+  have hinj : ∀ x ∈ Cs.flatten, ∀ x' ∈ Cs.flatten,
+      generateMapKey (kc x) = generateMapKey (kc x') → kc x = kc x' := by
+    intro x hx x' hx' e
+    obtain ⟨r, hr, h1⟩ := hkc_memAll x (hkept_sub x hx)
+    obtain ⟨r', hr', h2⟩ := hkc_memAll x' (hkept_sub x' hx')
+    rw [h1, h2] at e ⊢
+    exact hkey r hr r' hr' e
+  -- the merged result sets
+  obtain ⟨T, Ts, hT⟩ := List.exists_cons_of_ne_nil hne
+  rw [mergeSelectResult_eq] at hm
+  have hmm : mergeMultiResultSet (tables.map (shardResult cq')) =
+      .ok { nfields := cq'.items.length, rows := Cs.flatten.map (fullRow cq'.items) } := by
+    rw [hT, List.map_cons, mergeMulti_uniform cq'.items.length (shardResult cq' T) (Ts.map (shardResult cq')) rfl
+      (by intro x hx; obtain ⟨t, _, rfl⟩ := List.mem_map.mp hx; rfl)]
+    congr 2
+    rw [← List.map_cons (f := shardResult cq'), ← hT]
+    simp only [Cs, All, List.map_map, List.map_flatten]
+    congr 1
+    apply List.map_congr_left
+    intro t _
+    exact shard_group_limit' cq' g (o + c) hlim t (evalPre_group_nodup cq' g hg' t (shard_vis_nodup inv g hg t))
+  rw [hmm] at hm
+  simp only [R.bind_ok, hpg, if_true] at hm
+  have hloop := groupLoop_chunks (schema := schema) p (planDelta p cq') cq'.items kc inv.aggs inv.aggOK
+    Cs.flatten [] (by simpa using hchunkOK) (by simpa using hinj)
+  have hstate0 : chunkState cq'.items kc [] = [] := by simp [chunkState, dedup, dedupAux]
+  rw [hstate0, List.nil_append] at hloop
+  have hdelta : delta p { nfields := cq'.items.length, rows := Cs.flatten.map (fullRow cq'.items) } = planDelta p cq' := by
+    simp [delta, planDelta]
+  simp only [buildSelectGroupByResult, hdelta, hloop, R.bind_ok] at hm
+  -- the merged rows: one per candidate key
+  have hheads : heads (o + c) Ls = Cs.flatten.map kc := by
+    simp only [heads, Ls, Cs, List.map_map, List.map_flatten]
+    congr 1
+    apply List.map_congr_left
+    intro C _
+    simp [List.map_take]
+  let K1 := dedup (heads (o + c) Ls)
+  let cand : List Val → Row := fun k => fullRow cq'.items (chunkRows kc Cs.flatten k)
+  have hmerged : (chunkState cq'.items kc Cs.flatten).map (·.2) = K1.map cand := by
+    simp [chunkState, K1, hheads, List.map_map, cand]
+  rw [hmerged] at hm
+  -- the key lists of the sub-tables
+  have hLsflat : Ls.flatten = All.flatten.map kc := by
+    simp only [Ls, List.map_flatten]
+  have hLs_nodup : ∀ L ∈ Ls, L.Nodup := by
+    intro L hL
+    obtain ⟨C, hC, rfl⟩ := List.mem_map.mp hL
+    obtain ⟨t, ht, rfl⟩ := List.mem_map.mp hC
+    rw [((chunksOf_perm cq' g t).map kc).nodup_iff, groupRows_keys]
+    exact nodup_dedup _
+  have hLs_sorted : ∀ L ∈ Ls, L.Pairwise (fun a b => leK a b = true) := by
+    intro L hL
+    obtain ⟨C, hC, rfl⟩ := List.mem_map.mp hL
+    obtain ⟨t, ht, rfl⟩ := List.mem_map.mp hC
+    rw [List.pairwise_map]
+    have hs : (chunksOf cq' g t).Pairwise (fun a b => leOut cq'.dirs (outOf cq' a) (outOf cq' b) = true) := by
+      rw [chunksOf_eq]
+      exact List.pairwise_mergeSort (le := fun a b => leOut cq'.dirs (outOf cq' a) (outOf cq' b))
+        (fun a b c => leOut_trans _ _ _ _) (fun a b => leOut_total _ _ _) _
+    refine hs.imp_of_mem ?_
+    intro a b ha hb hab
+    obtain ⟨r, rs, rfl, hra, _⟩ := chunk_head g t a ((chunksOf_perm cq' g t).mem_iff.mp ha)
+    obtain ⟨r', rs', rfl, hrb, _⟩ := chunk_head g t b ((chunksOf_perm cq' g t).mem_iff.mp hb)
+    simp only [leOut, outOf, CQ.dirs, hkeys'] at hab
+    have := leKey_groups_le g cq.keys r r' rs rs' hab
+    simp only [leK, lead, kc, CQ.dirs, ← hra, ← hrb]
+    exact this
+  have hanti : ∀ a ∈ Ls.flatten, ∀ b ∈ Ls.flatten, leK a b = true → leK b a = true → a = b := by
+    intro a ha b hb h1 h2
+    rw [hLsflat] at ha hb
+    obtain ⟨xa, hxa, rfl⟩ := List.mem_map.mp ha
+    obtain ⟨xb, hxb, rfl⟩ := List.mem_map.mp hb
+    obtain ⟨ra, _, hka⟩ := hkc_memAll xa hxa
+    obtain ⟨rb, _, hkb⟩ := hkc_memAll xb hxb
+    rw [hka, hkb] at h1 h2 ⊢
+    refine leG_antisymm g lead cq.dirs (leadCols_mem g cq.keys) ?_ ?_ ra rb h1 h2
+    · intro x hx
+      have := List.all_eq_true.mp hcov x hx
+      simpa using this
+    · have := leadCols_length_le g cq.keys
+      simpa [CQ.dirs, lead] using this
+  obtain ⟨S, hSp, hSs, hSw⟩ := topk_nodup ktrans ktotal Ls hLs_sorted hLs_nodup o c
+  have hcomplete := take_complete ktrans ktotal Ls hLs_sorted hLs_nodup hanti (o + c)
+  -- keys and rows against the union
+  let tru : List Val → List Row := fun k => tables.flatten.filter fun r => groupKey g r = k
+  have hrowsAll : ∀ k, chunkRows kc All.flatten k = tru k :=
+    chunkRows_all g tables All (by simp [All]) (fun i h1 h2 => by
+      simp only [All, List.getElem_map]
+      exact chunksOf_perm cq' g _)
+  have hD : (dedup Ls.flatten).Perm (dedup (tables.flatten.map (groupKey g))) := by
+    rw [List.perm_ext_iff_of_nodup (nodup_dedup _) (nodup_dedup _)]
+    intro k
+    rw [mem_dedup, mem_dedup, hLsflat]
+    constructor
+    · intro hk
+      obtain ⟨x, hx, rfl⟩ := List.mem_map.mp hk
+      obtain ⟨r, hr, h1⟩ := hkc_memAll x hx
+      exact List.mem_map.mpr ⟨r, hr, h1.symm⟩
+    · intro hk
+      obtain ⟨r, hr, rfl⟩ := List.mem_map.mp hk
+      obtain ⟨t, ht, hrt⟩ := List.mem_flatten.mp hr
+      have hkt : groupKey g r ∈ t.map (groupKey g) := List.mem_map.mpr ⟨r, hrt, rfl⟩
+      have hc : (t.filter fun r' => groupKey g r' = groupKey g r) ∈ groupRows g t := by
+        simp only [groupRows, List.mem_map]
+        exact ⟨groupKey g r, (mem_dedup _ _).mpr hkt, rfl⟩
+      have hc' : (t.filter fun r' => groupKey g r' = groupKey g r) ∈ All.flatten :=
+        List.mem_flatten.mpr ⟨chunksOf cq' g t, List.mem_map.mpr ⟨t, ht, rfl⟩,
+          (chunksOf_perm cq' g t).mem_iff.mpr hc⟩
+      exact List.mem_map.mpr ⟨_, hc', kcOf_filter g t _ hkt⟩
+  -- a candidate / a group of the union: a first row carrying the key
+  have hcand_head : ∀ k ∈ K1, ∃ r rs, chunkRows kc Cs.flatten k = r :: rs ∧ groupKey g r = k := by
+    intro k hk
+    have hk' : k ∈ Cs.flatten.map kc := by rw [← hheads]; exact (mem_dedup _ _).mp hk
+    have hne' := chunkRows_ne_nil kc Cs.flatten k (fun x hx => (hchunkOK x hx).1) hk'
+    cases hX : chunkRows kc Cs.flatten k with
+    | nil => exact absurd hX hne'
+    | cons r rs =>
+      refine ⟨r, rs, rfl, ?_⟩
+      have hr : r ∈ chunkRows kc Cs.flatten k := by rw [hX]; simp
+      simp only [chunkRows] at hr
+      obtain ⟨x, hxf, hrx⟩ := List.mem_flatten.mp hr
+      have hx := (List.mem_filter.mp hxf).1
+      have hkx : kc x = k := by simpa using (List.mem_filter.mp hxf).2
+      obtain ⟨t, ht, hct⟩ := hchunk x hx
+      obtain ⟨_, _, _, _, hall⟩ := chunk_head g t x hct
+      rw [← hkx]
+      exact hall r hrx
+  have hcand_sub : ∀ k, (chunkRows kc Cs.flatten k).Sublist tables.flatten := by
+    intro k
+    have e1 : chunkRows kc Cs.flatten k =
+        (tables.map fun t => (((chunksOf cq' g t).take (o + c)).filter fun x => kc x = k).flatten).flatten := by
+      simp only [chunkRows, Cs, All, List.filter_flatten, List.flatten_flatten, List.map_map]
+      rfl
+    rw [e1]
+    apply flatten_sublist_of_forall
+    intro t _
+    have h1 : (((chunksOf cq' g t).take (o + c)).filter fun x => kc x = k).Sublist
+        ((chunksOf cq' g t).filter fun x => kc x = k) := (List.take_sublist _ _).filter _
+    have h2 := sublist_flatten_of_sublist h1
+    rw [chunks_filter_flatten g t _ (chunksOf_perm cq' g t) k] at h2
+    exact h2.trans List.filter_sublist
+  have htru_head : ∀ k ∈ dedup (tables.flatten.map (groupKey g)), ∃ r rs, tru k = r :: rs ∧ groupKey g r = k := by
+    intro k hk
+    obtain ⟨r0, hr0, rfl⟩ := List.mem_map.mp ((mem_dedup _ _).mp hk)
+    cases hX : tru (groupKey g r0) with
+    | nil =>
+      have : r0 ∈ tru (groupKey g r0) := List.mem_filter.mpr ⟨hr0, by simp⟩
+      rw [hX] at this; cases this
+    | cons r rs =>
+      refine ⟨r, rs, rfl, ?_⟩
+      have hr : r ∈ tru (groupKey g r0) := by rw [hX]; simp
+      simpa [tru] using (List.mem_filter.mp hr).2
+  let LF := leFull cq.dirs (sortCols p cq')
+  -- sorting the candidates is sorting their keys
+  have hsortmap : (K1.map cand).mergeSort LF = (K1.mergeSort leK).map cand := by
+    symm
+    apply List.map_mergeSort
+    intro a ha b hb
+    by_cases e : a = b
+    · subst e
+      have h1 : leK a a = true := by have := ktotal a a; simpa using this
+      have h2 : LF (cand a) (cand a) = true := by
+        have := leFull_total cq.dirs (sortCols p cq') (cand a) (cand a); simpa using this
+      rw [h1, h2]
+    · obtain ⟨r, rs, hra, hka⟩ := hcand_head a ha
+      obtain ⟨r', rs', hrb, hkb⟩ := hcand_head b hb
+      simp only [LF, cand, hra, hrb, leFull_fullRow inv]
+      rw [leKey_groups_ne g cq.keys r r' rs rs' (by rw [hka, hkb]; exact e) hcov, hka, hkb]
+      rfl
+  -- the candidates of the window are complete
+  have hcand_tru : ∀ k ∈ (K1.mergeSort leK).take (o + c), cand k = fullRow cq'.items (tru k) := by
+    intro k hk
+    simp only [cand]
+    rw [← hrowsAll k]
+    congr 1
+    simp only [chunkRows, Cs, List.filter_flatten, List.map_map]
+    congr 2
+    apply List.map_congr_left
+    intro C hC
+    simp only [Function.comp]
+    apply filter_take_of_nodup kc C (o + c) k
+    · exact hLs_nodup _ (List.mem_map.mpr ⟨C, hC, rfl⟩)
+    · intro hkC
+      exact hcomplete k hk (C.map kc) (List.mem_map.mpr ⟨C, hC, rfl⟩) hkC
+  have hSD := hSp.trans hD
+  have hlenm : ∀ x ∈ K1.map cand, x.length = cq'.items.length := by
+    intro x hx
+    obtain ⟨k, _, rfl⟩ := List.mem_map.mp hx
+    exact fullRow_length _ _
+  -- the DISTINCT step removes nothing: the GROUP BY key can be read from the visible row
+  have hm' : mergeTail p { nfields := cq'.items.length, rows := K1.map cand } = .ok res := by
+    by_cases hpd : p.distinct = true
+    · have hd : cq.distinct = true := by rw [← inv.pdistinct]; exact hpd
+      obtain ⟨hsel, hsub⟩ := hdist hd
+      rw [if_pos hpd, removeDistinct_spec inv _ hlenm] at hm
+      have hid : dedupBy (fun r : Row => generateMapKey (r.take cq.items.length)) (K1.map cand) = K1.map cand := by
+        apply dedupBy_of_nodup
+        rw [List.map_map]
+        have hnd : K1.Pairwise (fun a b => a ≠ b) := nodup_dedup _
+        rw [List.Nodup, List.pairwise_map]
+        refine hnd.imp_of_mem ?_
+        intro a b ha hb hab e
+        apply hab
+        obtain ⟨r, rs, hra, hka⟩ := hcand_head a ha
+        obtain ⟨r', rs', hrb, hkb⟩ := hcand_head b hb
+        simp only [Function.comp, cand, inv_take inv] at e
+        have e' := hsub _ _ (hcand_sub a) (hcand_sub b) e
+        simp only [hra, hrb] at e'
+        rw [← hka, ← hkb]
+        exact key_of_vis cq g hsel hcov r r' rs rs' e'
+      rw [hid] at hm
+      simpa using hm
+    · rw [if_neg hpd] at hm
+      simpa using hm
+  have hres := mergeTail_spec inv _ res rfl hlenm hm'
+  -- the groups of the statement on the union
+  have hpre : evalPre cq tables.flatten = (groupRows g tables.flatten).map (outOf cq) := by
+    by_cases hd : cq.distinct = true
+    · obtain ⟨hsel, _⟩ := hdist hd
+      apply evalPre_group_nodup cq g hg
+      have hnd : (dedup (tables.flatten.map (groupKey g))).Pairwise (fun a b => a ≠ b) := nodup_dedup _
+      simp only [groupRows, List.map_map]
+      rw [List.Nodup, List.pairwise_map]
+      refine hnd.imp_of_mem ?_
+      intro a b ha hb hab e
+      apply hab
+      obtain ⟨r, rs, hra, hka⟩ := htru_head a ha
+      obtain ⟨r', rs', hrb, hkb⟩ := htru_head b hb
+      simp only [Function.comp] at e
+      have hra' : (tables.flatten.filter fun x => groupKey g x = a) = r :: rs := hra
+      have hrb' : (tables.flatten.filter fun x => groupKey g x = b) = r' :: rs' := hrb
+      rw [hra', hrb'] at e
+      rw [← hka, ← hkb]
+      exact key_of_vis cq g hsel hcov r r' rs rs' e
+    · exact evalPre_group cq g hg (by simpa using hd) _
+  refine ⟨S.map (fun k => outOf cq (tru k)), ?_, ?_, ?_⟩
+  · rw [hpre]
+    simp only [groupRows, List.map_map]
+    exact hSD.map _
+  · rw [List.pairwise_map]
+    have hnd : S.Nodup := hSD.nodup_iff.mpr (nodup_dedup _)
+    have hboth := hSs.and hnd
+    refine hboth.imp_of_mem ?_
+    intro a b ha hb hab
+    obtain ⟨r, rs, hra, hka⟩ := htru_head a (hSD.mem_iff.mp ha)
+    obtain ⟨r', rs', hrb, hkb⟩ := htru_head b (hSD.mem_iff.mp hb)
+    simp only [leOut, outOf, hra, hrb, CQ.dirs]
+    rw [leKey_groups_ne g cq.keys r r' rs rs' (by rw [hka, hkb]; exact hab.2) hcov, hka, hkb]
+    exact hab.1
+  · rw [hres, hsortmap, hcl]
+    simp only [window]
+    rw [← List.map_drop, ← List.map_take, ← hSw, List.map_map, ← List.map_drop, ← List.map_take, List.map_map]
+    apply List.map_congr_left
+    intro k hk
+    have hk' : k ∈ (K1.mergeSort leK).take (o + c) := by
+      rw [hSw] at hk
+      exact mem_window_take _ o c k hk
+    simp only [Function.comp]
+    rw [hcand_tru k hk', ← inv_toOut inv]
+    rfl
+
+
+end
+
 /-! ### the supported class, zero and one sub-table, the assembled theorem -/
 
 theorem evalShards_eq (schema : List Ty) (q : Query) (cq' : CQ) (h : compile schema q = some cq') :
@@ -1097,6 +2833,14 @@ theorem evalItem_nil_agg (k : AggKind) (arg : Option Nat) (d : Bool) :
 section
 variable {schema : List Ty} {p : Plan} {cq cq' : CQ}
 
+theorem evalPre_nil (cq : CQ) :
+    evalPre cq [] = if cq.aggregated && cq.group.isNone then [outOf cq []] else [] := by
+  cases hagg : cq.aggregated
+  · cases hd : cq.distinct <;> simp [evalPre, groupsOf, hagg, hd, dedupBy, dedupByAux]
+  · cases hg : cq.group with
+    | none => simp [evalPre_single' cq hagg hg]
+    | some g => cases hd : cq.distinct <;> simp [evalPre, groupsOf, hagg, hg, hd, groupRows, dedup, dedupAux, dedupBy, dedupByAux]
+
 /-- **A statement routed to no sub-table**: no row, or for aggregate functions
     without GROUP BY the row of the empty table (COUNT 0, NULL otherwise). -/
 theorem zero_route (inv : PlanInv schema p cq cq') (hclass : classOK p cq cq' = true)
@@ -1107,42 +2851,16 @@ theorem zero_route (inv : PlanInv schema p cq cq') (hclass : classOK p cq cq' = 
   simp only [emptyResult, hfl] at h
   have hnn : ¬ ((p.originColumnCount : Int) < 0) := by omega
   rw [if_neg hnn] at h
-  by_cases hdist : cq.distinct = true
-  · -- SELECT DISTINCT without aggregation: no row
-    simp only [classOK, hdist, if_true, Bool.and_eq_true, Bool.not_eq_true', decide_eq_true_eq] at hclass
-    obtain ⟨⟨hagg0, hagg0'⟩, _⟩ := hclass
-    have hgroup : cq.group = none := by
-      simp only [CQ.aggregated, Bool.or_eq_false_iff] at hagg0
-      cases hg : cq.group with
-      | none => rfl
-      | some g => rw [hg] at hagg0; simp at hagg0
-    have hpg : p.hasGroupBy = false := by rw [inv.pgroup, hgroup]; rfl
-    have haggs : p.aggs = [] := by
-      rw [inv.aggs]
-      apply aggPositions_nil_of_no_agg
-      simp only [CQ.aggregated, Bool.or_eq_false_iff, List.any_eq_false] at hagg0'
-      intro it hit
-      have := hagg0'.1.2 it hit
-      simpa using this
-    simp only [haggs, List.isEmpty_nil, or_true, if_true, R.ok.injEq] at h
-    subst h
-    refine ⟨[], ?_, by simp, ?_⟩
-    · rw [evalPre_plain_distinct cq hagg0 hdist]; simp [dedupBy, dedupByAux]
-    · cases cq.limit <;> simp [window]
-  have hd : cq.distinct = false := by simpa using hdist
   have hcl := hclass
-  simp only [classOK, hd, Bool.false_eq_true, if_false] at hcl
   by_cases hagg : cq.aggregated = true
-  · rw [hagg] at hcl
-    simp only [Bool.not_true, Bool.false_eq_true, if_false] at hcl
+  · simp only [classOK, hagg, Bool.not_true, Bool.false_eq_true, if_false] at hcl
     cases hg : cq.group with
     | some g =>
       have hpg : p.hasGroupBy = true := by rw [inv.pgroup, hg]; rfl
       simp only [hpg, true_or, if_true, R.ok.injEq] at h
       subst h
       refine ⟨[], ?_, by simp, ?_⟩
-      · rw [evalPre_group cq g hg hd]
-        simp [groupRows, dedup, dedupAux]
+      · rw [evalPre_nil]; simp [hg]
       · cases cq.limit <;> simp [window]
     | none =>
       rw [hg] at hcl
@@ -1216,25 +2934,25 @@ theorem zero_route (inv : PlanInv schema p cq cq') (hclass : classOK p cq cq' = 
       split at h
       · rw [R.ok.injEq] at h
         subst h
-        refine ⟨[outOf cq []], by rw [evalPre_single cq hagg hg hd], by simp, ?_⟩
+        refine ⟨[outOf cq []], by rw [evalPre_single' cq hagg hg], by simp, ?_⟩
         simp only
         rw [← window_map]
         simp
       · cases h
   · have hagg0 : cq.aggregated = false := by simpa using hagg
-    rw [hagg0] at hcl
-    simp only [Bool.not_false, if_true, Bool.not_eq_true'] at hcl
+    simp only [classOK, hagg0, Bool.not_false, if_true, Bool.and_eq_true, Bool.not_eq_true'] at hcl
     have haggs : p.aggs = [] := by
       rw [inv.aggs]
       apply aggPositions_nil_of_no_agg
-      simp only [CQ.aggregated, Bool.or_eq_false_iff, List.any_eq_false] at hcl
+      have h' := hcl.1
+      simp only [CQ.aggregated, Bool.or_eq_false_iff, List.any_eq_false] at h'
       intro it hit
-      have := hcl.1.2 it hit
+      have := h'.1.2 it hit
       simpa using this
     simp only [haggs, List.isEmpty_nil, or_true, if_true, R.ok.injEq] at h
     subst h
     refine ⟨[], ?_, by simp, ?_⟩
-    · rw [evalPre_plain cq hagg0 hd]; simp
+    · rw [evalPre_nil]; simp [hagg0]
     · cases cq.limit <;> simp [window]
 
 end
@@ -1254,86 +2972,162 @@ def KeyInj (cq : CQ) (rows : List Row) : Prop :=
   ∀ g, cq.group = some g → ∀ r ∈ rows, ∀ r' ∈ rows,
     generateMapKey (groupKey g r) = generateMapKey (groupKey g r') → groupKey g r = groupKey g r'
 
-/-- the DISTINCT row key encoding is injective on the rows present -/
+/-- the DISTINCT row key encoding is injective on the rows present (projections) -/
 def RowKeyInj (cq : CQ) (rows : List Row) : Prop :=
   cq.distinct = true → ∀ r ∈ rows, ∀ r' ∈ rows,
     generateMapKey (fullRow cq.items [r]) = generateMapKey (fullRow cq.items [r']) →
     fullRow cq.items [r] = fullRow cq.items [r']
 
+/-- the DISTINCT row key encoding is injective on the rows of the statement
+    before DISTINCT is applied (one per row, or one per group) -/
+def VisKeyInj (cq : CQ) (rows : List Row) : Prop :=
+  cq.distinct = true → ∀ G ∈ groupsOf cq rows, ∀ G' ∈ groupsOf cq rows,
+    generateMapKey (outOf cq G).vis = generateMapKey (outOf cq G').vis → (outOf cq G).vis = (outOf cq G').vis
+
+/-- for projections the two formulations agree -/
+theorem visKeyInj_of_rowKeyInj (cq : CQ) (rows : List Row) (hagg : cq.aggregated = false)
+    (h : RowKeyInj cq rows) : VisKeyInj cq rows := by
+  intro hd G hG G' hG' e
+  simp only [groupsOf, hagg, Bool.not_false, if_true, List.mem_map] at hG hG'
+  obtain ⟨r, hr, rfl⟩ := hG
+  obtain ⟨r', hr', rfl⟩ := hG'
+  exact h hd r hr r' hr' e
+
+/-- needed only for SELECT DISTINCT over GROUP BY with LIMIT: the DISTINCT row key is
+    injective on the visible rows computed from parts of the groups -/
+def DistinctLimitInj (cq : CQ) (rows : List Row) : Prop :=
+  cq.distinct = true → cq.group.isSome = true → cq.limit.isSome = true → SubVisKeyInj cq rows
+
 /-- the multi-table path of `ExecuteIn` -/
 theorem merge_correct {schema : List Ty} {p : Plan} {cq cq' : CQ} (inv : PlanInv schema p cq cq')
     (hclass : classOK p cq cq' = true) (tables : List (List Row)) (hne : tables ≠ [])
     (htyped : ∀ t ∈ tables, TypedRows schema t) (hkey : KeyInj cq tables.flatten)
-    (hrow : RowKeyInj cq tables.flatten) (res : Result)
+    (hrow : VisKeyInj cq tables.flatten) (hsub : DistinctLimitInj cq tables.flatten) (res : Result)
     (hm : mergeSelectResult p (tables.map (shardResult cq')) = .ok res) :
     Answer cq tables.flatten res.rows := by
-  by_cases hdist : cq.distinct = true
-  · simp only [classOK, hdist, if_true, Bool.and_eq_true, Bool.not_eq_true', decide_eq_true_eq] at hclass
-    obtain ⟨⟨hagg0, hagg0'⟩, hw⟩ := hclass
-    have hitems : cq'.items = cq.items := by
-      have := inv.items
-      rw [← hw, List.take_length] at this
-      exact this
-    refine merge_plain_distinct inv hagg0 hagg0' hdist hw tables hne ?_ res hm
-    rw [hitems]
-    exact hrow hdist
-  have hd : cq.distinct = false := by simpa using hdist
   have hcl := hclass
-  simp only [classOK, hd, Bool.false_eq_true, if_false] at hcl
   by_cases hagg : cq.aggregated = true
-  · rw [hagg] at hcl
-    simp only [Bool.not_true, Bool.false_eq_true, if_false] at hcl
+  · simp only [classOK, hagg, Bool.not_true, Bool.false_eq_true, if_false] at hcl
     cases hg : cq.group with
-    | some g =>
-      rw [hg] at hcl
-      exact merge_group inv g hg hd (by simpa using hcl) tables hne htyped (hkey g hg) res hm
     | none =>
       rw [hg] at hcl
       simp only [Bool.and_eq_true, decide_eq_true_eq] at hcl
       obtain ⟨⟨⟨hagg', hany⟩, hall⟩, _⟩ := hcl
-      refine merge_aggregate inv hagg hagg' hany hg hd ?_ tables hne htyped res hm
+      refine merge_aggregate_any inv hagg hagg' hany hg ?_ tables hne htyped res hm
       intro it hit c e
       have := List.all_eq_true.mp hall it hit
       rw [e] at this
       simp [Item.isAgg] at this
+    | some g =>
+      rw [hg] at hcl
+      simp only [Bool.and_eq_true, Bool.or_eq_true, decide_eq_true_eq, Bool.not_eq_true', keysSelected] at hcl
+      obtain ⟨hlimcov, hselect⟩ := hcl
+      have hgo : groupsOf cq tables.flatten = groupRows g tables.flatten := by
+        simp [groupsOf, hagg, hg]
+      cases hl' : cq'.limit with
+      | none =>
+        by_cases hdist : cq.distinct = true
+        · have hsel : ∀ k ∈ cq.keys, k.1 ∈ cq.items := by
+            rcases hselect with h1 | h1
+            · rw [hdist] at h1; cases h1
+            · intro k hk
+              have := List.all_eq_true.mp h1 k hk
+              simpa using this
+          refine merge_group_distinct2 inv g hg hdist hl' hsel tables hne htyped (hkey g hg) ?_ res hm
+          intro G hG G' hG' e
+          exact hrow hdist G (by rw [hgo]; exact hG) G' (by rw [hgo]; exact hG') e
+        · have hd : cq.distinct = false := by simpa using hdist
+          exact merge_group inv g hg hd hl' tables hne htyped (hkey g hg) res hm
+      | some oc =>
+        obtain ⟨o', n⟩ := oc
+        have hcov : leadCovers g cq.keys = true := by
+          rcases hlimcov with h1 | h1
+          · rw [hl'] at h1; cases h1
+          · exact h1
+        have hlimsome : cq.limit.isSome = true ∧ o' = 0 := by
+          have hl := inv.limit
+          cases hlim : cq.limit with
+          | none => rw [hlim] at hl; rw [hl.2] at hl'; cases hl'
+          | some oc2 =>
+            obtain ⟨o, c⟩ := oc2
+            rw [hlim] at hl
+            rcases hl.2.2 with h1 | h1
+            · rw [h1] at hl'
+              simp only [Option.some.injEq, Prod.mk.injEq] at hl'
+              exact ⟨rfl, hl'.1.symm⟩
+            · rw [h1] at hl'; cases hl'
+        obtain ⟨hls, ho'⟩ := hlimsome
+        subst ho'
+        refine merge_group_limit_any inv g hg n hl' hcov tables hne htyped (hkey g hg) ?_ res hm
+        intro hdist
+        refine ⟨?_, hsub hdist (by rw [hg]; rfl) hls⟩
+        rcases hselect with h1 | h1
+        · rw [hdist] at h1; cases h1
+        · intro k hk
+          have := List.all_eq_true.mp h1 k hk
+          simpa using this
   · have hagg0 : cq.aggregated = false := by simpa using hagg
-    rw [hagg0] at hcl
-    simp only [Bool.not_false, if_true, Bool.not_eq_true'] at hcl
-    exact merge_plain inv hagg0 hcl hd tables hne res hm
+    simp only [classOK, hagg0, Bool.not_false, if_true, Bool.and_eq_true, Bool.not_eq_true',
+      Bool.or_eq_true, hiddenSelected] at hcl
+    by_cases hdist : cq.distinct = true
+    · have hdup : ∀ it ∈ cq'.items.drop cq.items.length, it ∈ cq.items := by
+        rcases hcl.2 with h1 | h1
+        · rw [hdist] at h1; cases h1
+        · intro it hit
+          have := List.all_eq_true.mp h1 it hit
+          simpa using this
+      refine merge_plain_distinct2 inv hagg0 hcl.1 hdist hdup tables hne ?_ res hm
+      intro r hr r' hr' e
+      have hgo : groupsOf cq tables.flatten = tables.flatten.map fun x => [x] := by
+        simp [groupsOf, hagg0]
+      exact hrow hdist [r] (by rw [hgo]; exact List.mem_map.mpr ⟨r, hr, rfl⟩)
+        [r'] (by rw [hgo]; exact List.mem_map.mpr ⟨r', hr', rfl⟩) e
+    · have hd : cq.distinct = false := by simpa using hdist
+      exact merge_plain inv hagg0 hcl.1 hd tables hne res hm
 
 /-- **C02, the proved class.**  For every table schema, every statement of
     the supported class (`Supported`, decidable: the planner's rewriting satisfies
-    the plan invariant; the statement is a projection with ORDER BY / LIMIT, or
-    aggregate functions without GROUP BY, or a GROUP BY statement whose LIMIT is
-    not sent to the shards, or SELECT DISTINCT of plain columns whose ORDER BY
-    names selected columns; MAX / MIN(DISTINCT) are covered,
-    COUNT / SUM(DISTINCT) are rejected by the planner when several sub-tables
-    are involved), every
+    the plan invariant `planOK`, and the statement is
+    a projection with ORDER BY / LIMIT (`merge_plain`), SELECT DISTINCT of plain
+    columns whose hidden per-table columns repeat selected ones (`merge_plain_distinct2`),
+    aggregate functions without GROUP BY, with or without SELECT DISTINCT
+    (`merge_aggregate_any`), a GROUP BY statement whose LIMIT is not sent to the
+    sub-tables (`merge_group`) or is sent to them because ORDER BY starts with all
+    GROUP BY columns (`merge_group_limit`, `merge_group_limit_any`), or SELECT DISTINCT
+    over GROUP BY whose ORDER BY names selected expressions (`merge_group_distinct2`,
+    `merge_group_limit_any`); MAX / MIN(DISTINCT) are covered, COUNT / SUM(DISTINCT)
+    are rejected by the planner when several sub-tables are involved), every
     number of routed sub-tables (none, one, several) and all typed contents of
     those sub-tables on which the GROUP BY key / DISTINCT row key encoding is
-    injective (`keyInj_of_typed`, `rowKeyInj_of_typed`: always, for BIGINT and
-    character columns): if the
+    injective (`keyInj_of_typed`, `rowKeyInj_of_typed`, `visKeyInj_of_typed`,
+    `subVisKeyInj_of_typed`: always, for BIGINT, DECIMAL and character columns and the
+    aggregate functions over them, within the bounds `keyValOK`): if the
     proxy returns a result, its rows are an answer of the statement on one
     database holding the union of the sub-tables — a permutation of the rows of
     the statement, in ORDER BY order (ties in any order), cut to the LIMIT window.
     (The routing of WHERE — every row that satisfies WHERE lives in a routed
     sub-table — is C01's `route_sound`; `tables` are the WHERE-matching rows of
-    the routed sub-tables.)
+    the routed sub-tables.)  UNION is `union_correct`, joins are `join_linked_correct` /
+    `join_global_correct` below.
 
-    Full statement, not proved (`_partial`): the same for SELECT DISTINCT of
-    aggregated / grouped statements, GROUP BY with the per-shard LIMIT kept (ORDER BY starting
-    with the GROUP BY columns), UNION and joins; those shapes are covered by
-    the correspondence and the oracle only. -/
+    Full statement, not proved (`_partial`): the same for every statement the
+    reference semantics accepts, without the decidable side condition.  Outside
+    `Supported` remain: SELECT DISTINCT whose ORDER BY names an expression that is
+    not selected (MySQL rejects such statements: ER_FIELD_IN_ORDER_NOT_SELECT),
+    aggregate functions next to plain columns without GROUP BY (not
+    ONLY_FULL_GROUP_BY-clean), and the statements on which the plan invariant
+    `planOK` fails — it is checked per statement, not proved of `rewrite` for all
+    statements (no generated statement fails it; the share is reported on every run). -/
 theorem C02_select_correct_partial (schema : List Ty) (q : Query) (cq : CQ) (tables : List (List Row))
     (res : Result) (hcq : compile schema q = some cq) (hsup : Supported schema q = true)
     (htyped : ∀ t ∈ tables, TypedRows schema t) (hkey : KeyInj cq tables.flatten)
-    (hrow : RowKeyInj cq tables.flatten)
+    (hrow : VisKeyInj cq tables.flatten) (hsub : DistinctLimitInj cq tables.flatten)
     (h : executeIn schema q tables = .ok res) :
     Answer cq tables.flatten res.rows := by
   have hmulti : ∀ (ts : List (List Row)), (∀ t ∈ ts, TypedRows schema t) → KeyInj cq ts.flatten →
-      RowKeyInj cq ts.flatten →
+      VisKeyInj cq ts.flatten → DistinctLimitInj cq ts.flatten →
       executeMulti schema q ts = .ok res → Answer cq ts.flatten res.rows := by
-    intro ts hty hk hrw' hm
+    intro ts hty hk hrw' hsb hm
     simp only [executeMulti] at hm
     cases hrw : rewrite q with
     | fail => rw [hrw] at hm; cases hm
@@ -1355,15 +3149,690 @@ theorem C02_select_correct_partial (schema : List Ty) (q : Query) (cq : CQ) (tab
           exact zero_route inv hsup.2 (rewrite_columnCount q p hrw) res hm
         · rw [if_neg hempty, evalShards_eq schema p.shardQ cq' hcq'] at hm
           simp only at hm
-          exact merge_correct inv hsup.2 ts (by intro e; apply hempty; simp [e]) hty hk hrw' res hm
-  match tables, htyped, hkey, hrow, h with
-  | [], hty, hk, hr, h => exact hmulti [] hty hk hr h
-  | [t], _, _, _, h =>
+          exact merge_correct inv hsup.2 ts (by intro e; apply hempty; simp [e]) hty hk hrw' hsb res hm
+  match tables, htyped, hkey, hrow, hsub, h with
+  | [], hty, hk, hr, hs, h => exact hmulti [] hty hk hr hs h
+  | [t], _, _, _, _, h =>
     simp only [executeIn, evalShard, hcq] at h
     rw [R.ok.injEq] at h
     subst h
     simpa using single_table cq t
-  | t1 :: t2 :: ts, hty, hk, hr, h => exact hmulti (t1 :: t2 :: ts) hty hk hr h
+  | t1 :: t2 :: ts, hty, hk, hr, hs, h => exact hmulti (t1 :: t2 :: ts) hty hk hr hs h
+
+
+/-! ### UNION -/
+
+/-- the rows of a UNION on one database: the rows of the SELECTs combined left to
+    right; a UNION [DISTINCT] removes the duplicates among all rows gathered so far,
+    a UNION ALL appends -/
+def unionRows : List Row → List (List Row) → List Bool → List Row
+  | acc, [], _ => acc
+  | acc, r :: rs, flags =>
+    unionRows (if flags.headD false then dedup (acc ++ r) else acc ++ r) rs flags.tail
+
+/-- **What the property asks of the answer to a UNION**: the rows of the UNION of
+    (answers of) its SELECTs, in an order that respects the UNION's ORDER BY (ties
+    in any order), cut to its LIMIT window. -/
+def UnionAnswer (parts : List (List Row)) (distinct : List Bool) (cols : List Nat) (dirs : List Bool)
+    (lim : Lim) (out : List Row) : Prop :=
+  match parts with
+  | [] => out = []
+  | first :: rest =>
+    ∃ S : List Row, S.Perm (unionRows first rest distinct) ∧
+      S.Pairwise (fun a b => leKey dirs (keyAt (cols.map fun (i : Nat) => (i : Int)) a)
+        (keyAt (cols.map fun (i : Nat) => (i : Int)) b) = true) ∧
+      out = window lim.toWindow S
+
+theorem removeDuplicateValues_spec (N : Nat) : ∀ (rows : List Row) (seen : List (List UInt8)),
+    (∀ r ∈ rows, r.length = N) →
+    removeDuplicateValues N seen rows = .ok (dedupByAux generateMapKey seen rows)
+  | [], _, _ => rfl
+  | r :: rows, seen, h => by
+    have hr := h r (by simp)
+    have ih := fun seen' => removeDuplicateValues_spec N rows seen' (fun x hx => h x (by simp [hx]))
+    have htake : r.take N = r := by rw [← hr]; exact List.take_length
+    simp only [removeDuplicateValues, dedupByAux, htake]
+    rw [if_neg (by omega)]
+    by_cases hm : generateMapKey r ∈ seen
+    · have : seen.contains (generateMapKey r) = true := by simpa using hm
+      rw [if_pos hm]
+      simp only [this, if_true]
+      exact ih seen
+    · have : seen.contains (generateMapKey r) = false := by simpa using hm
+      rw [if_neg hm]
+      simp only [this, Bool.false_eq_true, if_false, ih]
+
+/-- the loop of `UnionPlan.mergeMultiResultSet` -/
+theorem unionLoop_spec : ∀ (rs : List UResult) (acc : UResult) (flags : List Bool) (res : UResult),
+    (∀ x ∈ acc.rows, x.length = acc.fields.length) →
+    (∀ r ∈ rs, ∀ x ∈ r.rows, x.length = r.fields.length) →
+    (∀ a ∈ acc.rows ++ (rs.map (·.rows)).flatten, ∀ b ∈ acc.rows ++ (rs.map (·.rows)).flatten,
+      generateMapKey a = generateMapKey b → a = b) →
+    unionLoop acc rs flags = .ok res →
+    res.fields = acc.fields ∧ res.rows = unionRows acc.rows (rs.map (·.rows)) flags ∧
+      ∀ x ∈ res.rows, x.length = res.fields.length
+  | [], acc, flags, res, hacc, _, _, h => by
+    simp only [unionLoop, R.ok.injEq] at h
+    subst h
+    exact ⟨rfl, rfl, hacc⟩
+  | r :: rs, acc, flags, res, hacc, hrs, hinj, h => by
+    simp only [unionLoop] at h
+    split at h
+    · cases h
+    · rename_i hlen
+      split at h
+      · cases h
+      · have hlen' : r.fields.length = acc.fields.length := by simpa using hlen
+        have hrrows : ∀ x ∈ r.rows, x.length = acc.fields.length := by
+          intro x hx; rw [← hlen']; exact hrs r (by simp) x hx
+        simp only [List.map_cons, unionRows]
+        by_cases hflag : flags.headD false = true
+        · simp only [hflag, if_true] at h ⊢
+          rw [removeDuplicateValues_spec acc.fields.length (acc.rows ++ r.rows) [] (by
+            intro x hx
+            rcases List.mem_append.mp hx with h1 | h1
+            · exact hacc x h1
+            · exact hrrows x h1)] at h
+          have hdd : dedupByAux generateMapKey [] (acc.rows ++ r.rows) = dedup (acc.rows ++ r.rows) := by
+            apply dedupBy_eq_dedup generateMapKey
+            intro a ha b hb e
+            apply hinj a _ b _ e
+            · rcases List.mem_append.mp ha with h1 | h1 <;> simp [h1]
+            · rcases List.mem_append.mp hb with h1 | h1 <;> simp [h1]
+          rw [hdd] at h
+          have hsub : ∀ x ∈ dedup (acc.rows ++ r.rows), x ∈ acc.rows ++ r.rows := fun x hx => (mem_dedup _ _).mp hx
+          have := unionLoop_spec rs { acc with rows := dedup (acc.rows ++ r.rows) } flags.tail res (by
+              intro x hx
+              rcases List.mem_append.mp (hsub x hx) with h1 | h1
+              · exact hacc x h1
+              · exact hrrows x h1)
+            (fun r' hr' => hrs r' (by simp [hr'])) (by
+              intro a ha b hb e
+              apply hinj a _ b _ e
+              · rcases List.mem_append.mp ha with h1 | h1
+                · rcases List.mem_append.mp (hsub a h1) with h2 | h2 <;> simp [h2]
+                · simp only [List.map_cons, List.flatten_cons, List.mem_append]; exact Or.inr (Or.inr h1)
+              · rcases List.mem_append.mp hb with h1 | h1
+                · rcases List.mem_append.mp (hsub b h1) with h2 | h2 <;> simp [h2]
+                · simp only [List.map_cons, List.flatten_cons, List.mem_append]; exact Or.inr (Or.inr h1)) h
+          exact this
+        · have hflag' : flags.headD false = false := by simpa using hflag
+          simp only [hflag', Bool.false_eq_true, if_false] at h ⊢
+          have := unionLoop_spec rs { acc with rows := acc.rows ++ r.rows } flags.tail res (by
+              intro x hx
+              rcases List.mem_append.mp hx with h1 | h1
+              · exact hacc x h1
+              · exact hrrows x h1)
+            (fun r' hr' => hrs r' (by simp [hr'])) (by
+              intro a ha b hb e
+              apply hinj a _ b _ e
+              · simpa [List.append_assoc] using ha
+              · simpa [List.append_assoc] using hb) h
+          exact this
+
+/-- the rows of an answer are visible rows of the statement, as wide as its select list -/
+theorem answer_rows (cq : CQ) (all out : List Row) (h : Answer cq all out) :
+    ∀ x ∈ out, x ∈ (evalPre cq all).map (·.vis) ∧ x.length = cq.items.length := by
+  obtain ⟨S, hp, _, rfl⟩ := h
+  intro x hx
+  obtain ⟨o, ho, rfl⟩ := List.mem_map.mp hx
+  have ho' : o ∈ evalPre cq all := hp.mem_iff.mp (mem_window _ _ _ ho)
+  refine ⟨List.mem_map.mpr ⟨o, ho', rfl⟩, ?_⟩
+  obtain ⟨g, rfl⟩ := evalPre_mem cq all o ho'
+  simp [outOf]
+
+theorem compile_items (schema : List Ty) (q : Query) (cq : CQ) (h : compile schema q = some cq) :
+    ∃ items, compileFields schema q.fields = some items ∧ cq.items = items.map (·.1) := by
+  unfold compile at h
+  cases hitems : compileFields schema q.fields with
+  | none => rw [hitems] at h; cases h
+  | some items =>
+    rw [hitems] at h
+    simp only at h
+    refine ⟨items, rfl, ?_⟩
+    repeat' split at h
+    all_goals first
+      | (simp only [Option.some.injEq] at h; subst h; rfl)
+      | cases h
+
+/-- the name the backend reports for a compiled select item -/
+def itemName (it : Item × Option Nat) : Option Nat :=
+  match it.2 with
+  | some a => some a
+  | none => match it.1 with
+    | .col c => some c
+    | _ => none
+
+theorem compileFields_nostar (schema : List Ty) : ∀ (fields : List Field) (items : List (Item × Option Nat)),
+    compileFields schema fields = some items → fields.all (fun f => f.expr != .star) = true →
+    items.map itemName = fields.map fieldName
+  | [], items, h, _ => by
+    simp only [compileFields, Option.some.injEq] at h
+    subst h; rfl
+  | f :: fs, items, h, hs => by
+    simp only [List.all_cons, Bool.and_eq_true] at hs
+    simp only [compileFields] at h
+    split at h
+    · rename_i a b ha hb
+      simp only [Option.some.injEq] at h
+      subst h
+      have ih := compileFields_nostar schema fs b hb hs.2
+      rw [List.map_append, ih, List.map_cons]
+      congr 1
+      have hne : f.expr ≠ .star := by simpa using hs.1
+      simp only [compileField] at ha
+      cases hf : f.expr with
+      | star => exact absurd hf hne
+      | col n =>
+        rw [hf] at ha
+        simp only at ha
+        split at ha
+        · simp only [Option.some.injEq] at ha
+          subst ha
+          simp only [List.map_cons, List.map_nil, itemName, fieldName, hf]
+          cases f.asName <;> rfl
+        · cases ha
+      | agg k arg d =>
+        rw [hf] at ha
+        simp only [Option.map_eq_some_iff] at ha
+        obtain ⟨it, hit, rfl⟩ := ha
+        have hit' : ∃ k' a' d', it = .agg k' a' d' := by
+          simp only [compileAgg] at hit
+          split at hit
+          · split at hit
+            · simp only [Option.some.injEq] at hit; exact ⟨_, _, _, hit.symm⟩
+            · cases hit
+          · split at hit
+            · cases hit
+            · split at hit
+              · cases hit
+              · simp only [Option.some.injEq] at hit; exact ⟨_, _, _, hit.symm⟩
+        obtain ⟨k', a', d', rfl⟩ := hit'
+        simp only [List.map_cons, List.map_nil, itemName, fieldName, hf]
+        cases f.asName <;> rfl
+      | pos n =>
+        rw [hf] at ha
+        simp only [Option.some.injEq] at ha
+        subst ha
+        simp only [List.map_cons, List.map_nil, itemName, fieldName, hf]
+        cases f.asName <;> rfl
+    · cases h
+
+theorem fieldsOf_names (schema : List Ty) (q : Query) (cq : CQ) (n : Nat) (hcq : compile schema q = some cq)
+    (hn : n = 0 → q.fields.all (fun f => f.expr != .star) = true) :
+    (fieldsOf schema q n).map (·.name) = (fieldsOf schema q 1).map (·.name) ∧
+    (fieldsOf schema q n).length = cq.items.length := by
+  obtain ⟨items, hitems, hci⟩ := compile_items schema q cq hcq
+  have h1 : (fieldsOf schema q 1).map (·.name) = items.map itemName := by
+    simp only [fieldsOf, hitems]
+    rw [if_neg (by decide), List.map_map]
+    apply List.map_congr_left
+    intro it _
+    rfl
+  by_cases h0 : n = 0
+  · subst h0
+    have hns := compileFields_nostar schema q.fields items hitems (hn rfl)
+    have h2 : (fieldsOf schema q 0).map (·.name) = q.fields.map fieldName := by
+      simp [fieldsOf, List.map_map, Function.comp_def]
+    refine ⟨by rw [h1, h2, hns], ?_⟩
+    have := congrArg List.length hns
+    simp only [List.length_map] at this
+    simp [fieldsOf, hci, this]
+  · have hf : fieldsOf schema q n = fieldsOf schema q 1 := by
+      simp [fieldsOf, h0]
+    rw [hf]
+    refine ⟨rfl, ?_⟩
+    simp [fieldsOf, hitems, hci]
+
+theorem findIdx_names (n : Nat) : ∀ (f1 f2 : List FieldMeta), f1.map (·.name) = f2.map (·.name) →
+    f1.findIdx? (fun f => f.name = some n) = f2.findIdx? (fun f => f.name = some n)
+  | [], [], _ => rfl
+  | [], _ :: _, h => by simp at h
+  | _ :: _, [], h => by simp at h
+  | a :: f1, b :: f2, h => by
+    simp only [List.map_cons, List.cons.injEq] at h
+    simp only [List.findIdx?_cons, h.1, findIdx_names n f1 f2 h.2]
+
+theorem unionOrderIndexes_names (f1 f2 : List FieldMeta) (h : f1.map (·.name) = f2.map (·.name)) :
+    ∀ bs : List By, unionOrderIndexes f1 bs = unionOrderIndexes f2 bs
+  | [] => rfl
+  | b :: bs => by
+    have hl : f1.length = f2.length := by simpa using congrArg List.length h
+    have : unionOrderIndex f1 b = unionOrderIndex f2 b := by
+      cases b with
+      | name n => exact findIdx_names n f1 f2 h
+      | pos n => simp [unionOrderIndex, hl]
+      | agg k a d => rfl
+    simp only [unionOrderIndexes, this, unionOrderIndexes_names f1 f2 h bs]
+
+theorem unionOrderIndexes_lt (fields : List FieldMeta) : ∀ (bs : List By) (is : List Nat),
+    unionOrderIndexes fields bs = some is → is.length = bs.length ∧ ∀ i ∈ is, i < fields.length
+  | [], is, h => by
+    simp only [unionOrderIndexes, Option.some.injEq] at h
+    subst h; simp
+  | b :: bs, is, h => by
+    simp only [unionOrderIndexes] at h
+    split at h
+    · rename_i i is' hi his
+      simp only [Option.some.injEq] at h
+      subst h
+      have ih := unionOrderIndexes_lt fields bs is' his
+      refine ⟨by simp [ih.1], ?_⟩
+      intro j hj
+      rcases List.mem_cons.mp hj with rfl | hj
+      · cases b with
+        | name n =>
+          simp only [unionOrderIndex] at hi
+          have := List.findIdx?_eq_some_iff_findIdx_eq.mp hi
+          exact this.1
+        | pos n =>
+          simp only [unionOrderIndex] at hi
+          split at hi
+          · simp only [Option.some.injEq] at hi; omega
+          · cases hi
+        | agg k a d => simp [unionOrderIndex] at hi
+      · exact ih.2 j hj
+    · cases h
+
+/-- what the theorem assumes about one SELECT of the UNION: it is a statement of
+    the proved class on typed sub-tables (hypotheses of `C02_select_correct_partial`);
+    if it is routed to no sub-table its select list has no `*` (`newEmptyResultset`
+    makes up a single field for `*`) -/
+structure UnionSel (schema : List Ty) (s : Query × List (List Row)) (cq : CQ) : Prop where
+  hcq : compile schema s.1 = some cq
+  hsup : Supported schema s.1 = true
+  htyped : ∀ t ∈ s.2, TypedRows schema t
+  hkey : KeyInj cq s.2.flatten
+  hrow : VisKeyInj cq s.2.flatten
+  hsub : DistinctLimitInj cq s.2.flatten
+  hstar : s.2 = [] → s.1.fields.all (fun f => f.expr != .star) = true
+
+def AllSel (schema : List Ty) : List (Query × List (List Row)) → List CQ → Prop
+  | [], [] => True
+  | s :: ss, cq :: cqs => UnionSel schema s cq ∧ AllSel schema ss cqs
+  | _, _ => False
+
+/-- every part is an answer of its SELECT on the union of that SELECT's sub-tables -/
+def PartsOK : List (Query × List (List Row)) → List CQ → List (List Row) → Prop
+  | [], [], [] => True
+  | s :: ss, cq :: cqs, p :: ps => Answer cq s.2.flatten p ∧ PartsOK ss cqs ps
+  | _, _, _ => False
+
+/-- the visible rows of all SELECTs (on which the duplicate key has to be injective) -/
+def unionVis : List (Query × List (List Row)) → List CQ → List Row
+  | s :: ss, cq :: cqs => (evalPre cq s.2.flatten).map (·.vis) ++ unionVis ss cqs
+  | _, _ => []
+
+/-- the result fields the ORDER BY of the UNION refers to: those of the first SELECT -/
+def unionSpecFields (schema : List Ty) : List (Query × List (List Row)) → List FieldMeta
+  | [] => []
+  | s :: _ => fieldsOf schema s.1 1
+
+theorem unionSubs_spec (schema : List Ty) : ∀ (sels : List (Query × List (List Row))) (cqs : List CQ) (rs : List UResult),
+    AllSel schema sels cqs → unionSubs schema sels = .ok rs →
+    PartsOK sels cqs (rs.map (·.rows)) ∧
+    (∀ r ∈ rs, ∀ x ∈ r.rows, x.length = r.fields.length ∧ x ∈ unionVis sels cqs) ∧
+    rs.map (fun r => r.fields.map (·.name)) = sels.map (fun s => (fieldsOf schema s.1 1).map (·.name))
+  | [], [], rs, _, h => by
+    simp only [unionSubs, R.ok.injEq] at h
+    subst h
+    simp [PartsOK]
+  | [], _ :: _, _, ha, _ => by cases ha
+  | _ :: _, [], _, ha, _ => by cases ha
+  | (q, tables) :: ss, cq :: cqs, rs, ha, h => by
+    obtain ⟨hs, hrest⟩ := ha
+    simp only [unionSubs] at h
+    cases hex : executeIn schema q tables with
+    | fail => rw [hex] at h; cases h
+    | panic => rw [hex] at h; cases h
+    | ok r =>
+      rw [hex] at h
+      simp only at h
+      cases hsub : unionSubs schema ss with
+      | fail => rw [hsub] at h; cases h
+      | panic => rw [hsub] at h; cases h
+      | ok rs' =>
+        rw [hsub] at h
+        simp only [R.ok.injEq] at h
+        subst h
+        obtain ⟨ih1, ih2, ih3⟩ := unionSubs_spec schema ss cqs rs' hrest hsub
+        have hans : Answer cq tables.flatten r.rows :=
+          C02_select_correct_partial schema q cq tables r hs.hcq hs.hsup hs.htyped hs.hkey hs.hrow hs.hsub hex
+        have hrows := answer_rows cq tables.flatten r.rows hans
+        have hf := fieldsOf_names schema q cq tables.length hs.hcq (by
+          intro h0
+          exact hs.hstar (List.length_eq_zero_iff.mp h0))
+        refine ⟨⟨hans, ih1⟩, ?_, ?_⟩
+        · intro r' hr' x hx
+          rcases List.mem_cons.mp hr' with rfl | hr'
+          · simp only at hx ⊢
+            refine ⟨by rw [hf.2]; exact (hrows x hx).2, ?_⟩
+            simp only [unionVis, List.mem_append]
+            exact Or.inl (hrows x hx).1
+          · have := ih2 r' hr' x hx
+            refine ⟨this.1, ?_⟩
+            simp only [unionVis, List.mem_append]
+            exact Or.inr this.2
+        · simp only [List.map_cons, hf.1, ih3]
+
+theorem unionLimit_eq (lim : Lim) (rows : List Row) : unionLimit lim rows = window lim.toWindow rows := by
+  cases lim <;> simp [unionLimit, Lim.toWindow, window]
+
+theorem unionSort_spec (merged : UResult) (order : List (By × Bool)) (rows' : List Row)
+    (hrows : ∀ x ∈ merged.rows, x.length = merged.fields.length)
+    (h : unionSort merged order = .ok rows') :
+    ∃ cols : List Nat, unionOrderIndexes merged.fields (order.map (·.1)) = some cols ∧
+      rows' = merged.rows.mergeSort fun a b =>
+        leKey (order.map (·.2)) (keyAt (cols.map fun (i : Nat) => (i : Int)) a)
+          (keyAt (cols.map fun (i : Nat) => (i : Int)) b) := by
+  simp only [unionSort] at h
+  split at h
+  · rename_i he
+    have : order = [] := List.isEmpty_iff.mp he
+    subst this
+    simp only [R.ok.injEq] at h
+    subst h
+    refine ⟨[], rfl, ?_⟩
+    rw [mergeSort_true]
+    intro a b
+    simp [leKey]
+  · split at h
+    · cases h
+    · rename_i idxs hidx
+      have hlt := unionOrderIndexes_lt merged.fields _ idxs hidx
+      refine ⟨idxs, hidx, ?_⟩
+      apply sortRows_spec _ _ _ _ (by simp [hlt.1]) _ h
+      intro r hr c hc
+      obtain ⟨i, hi, rfl⟩ := List.mem_map.mp hc
+      have := hlt.2 i hi
+      rw [hrows r hr]
+      omega
+
+/-- **UNION [ALL | DISTINCT] of statements of the proved class**: if the proxy
+    returns a result, its rows are an answer of the UNION on one database: there
+    are answers of the SELECTs (each on the union of its sub-tables) such that the
+    result is their UNION (left to right, a DISTINCT union removing the duplicates
+    gathered so far), in the order of the UNION's ORDER BY (columns of the first
+    SELECT by name or position; ties in any order), cut to the UNION's LIMIT
+    window.  Hypotheses: every SELECT satisfies those of `C02_select_correct_partial`;
+    the duplicate key is injective on the visible rows of the SELECTs. -/
+theorem union_correct (schema : List Ty) (sels : List (Query × List (List Row))) (cqs : List CQ)
+    (distinct : List Bool) (order : List (By × Bool)) (lim : Lim) (res : UResult)
+    (hsels : AllSel schema sels cqs)
+    (hinj : ∀ a ∈ unionVis sels cqs, ∀ b ∈ unionVis sels cqs, generateMapKey a = generateMapKey b → a = b)
+    (h : executeUnion schema sels distinct order lim = .ok res) :
+    ∃ (parts : List (List Row)) (cols : List Nat), PartsOK sels cqs parts ∧
+      unionOrderIndexes (unionSpecFields schema sels) (order.map (·.1)) = some cols ∧
+      UnionAnswer parts distinct cols (order.map (·.2)) lim res.rows := by
+  simp only [executeUnion] at h
+  cases hsubs : unionSubs schema sels with
+  | fail => rw [hsubs] at h; cases h
+  | panic => rw [hsubs] at h; cases h
+  | ok rs =>
+    rw [hsubs] at h
+    simp only [mergeUnionResult] at h
+    obtain ⟨hparts, hrs, hnames⟩ := unionSubs_spec schema sels cqs rs hsels hsubs
+    cases hmm : unionMergeMulti rs distinct with
+    | fail => rw [hmm] at h; cases h
+    | panic => rw [hmm] at h; cases h
+    | ok merged =>
+      rw [hmm] at h
+      simp only at h
+      cases hsort : unionSort merged order with
+      | fail => rw [hsort] at h; cases h
+      | panic => rw [hsort] at h; cases h
+      | ok rows' =>
+        rw [hsort] at h
+        simp only at h
+        split at h
+        · simp only [R.ok.injEq] at h
+          subst h
+          simp only
+          -- the merged rows and fields
+          have hmerged : (∀ x ∈ merged.rows, x.length = merged.fields.length) ∧
+              merged.fields.map (·.name) = (unionSpecFields schema sels).map (·.name) ∧
+              (match rs.map (·.rows) with
+                | [] => merged.rows = []
+                | first :: rest => merged.rows = unionRows first rest distinct) := by
+            match rs, hrs, hnames, hmm with
+            | [], _, hnames, hmm =>
+              simp only [unionMergeMulti, R.ok.injEq] at hmm
+              subst hmm
+              have : sels = [] := by
+                cases sels with
+                | nil => rfl
+                | cons a b => simp at hnames
+              subst this
+              simp [unionSpecFields]
+            | [r], hrs, hnames, hmm =>
+              simp only [unionMergeMulti, R.ok.injEq] at hmm
+              subst hmm
+              refine ⟨fun x hx => (hrs _ (by simp) x hx).1, ?_, by simp [unionRows]⟩
+              cases sels with
+              | nil => simp at hnames
+              | cons a b =>
+                simp only [List.map_cons, List.cons.injEq] at hnames
+                simp [unionSpecFields, hnames.1]
+            | r :: r2 :: rest, hrs, hnames, hmm =>
+              simp only [unionMergeMulti] at hmm
+              obtain ⟨hf, hr, hl⟩ := unionLoop_spec (r2 :: rest) r distinct merged
+                (fun x hx => (hrs r (by simp) x hx).1)
+                (fun r' hr' x hx => (hrs r' (by simp [hr']) x hx).1)
+                (by
+                  intro a ha b hb e
+                  have hmem : ∀ y ∈ r.rows ++ ((r2 :: rest).map (·.rows)).flatten, y ∈ unionVis sels cqs := by
+                    intro y hy
+                    rcases List.mem_append.mp hy with h1 | h1
+                    · exact (hrs r (by simp) y h1).2
+                    · obtain ⟨l, hl, hyl⟩ := List.mem_flatten.mp h1
+                      obtain ⟨r', hr', rfl⟩ := List.mem_map.mp hl
+                      exact (hrs r' (by simp [hr']) y hyl).2
+                  exact hinj a (hmem a ha) b (hmem b hb) e) hmm
+              refine ⟨hl, ?_, by simpa using hr⟩
+              rw [hf]
+              cases sels with
+              | nil => simp at hnames
+              | cons a b =>
+                simp only [List.map_cons, List.cons.injEq] at hnames
+                simp [unionSpecFields, hnames.1]
+          obtain ⟨hlen, hfn, hrowsU⟩ := hmerged
+          obtain ⟨cols, hcols, hsorted⟩ := unionSort_spec merged order rows' hlen hsort
+          refine ⟨rs.map (·.rows), cols, hparts, ?_, ?_⟩
+          · rw [← unionOrderIndexes_names merged.fields _ hfn]
+            exact hcols
+          · rw [unionLimit_eq, hsorted]
+            cases hp : rs.map (·.rows) with
+            | nil =>
+              rw [hp] at hrowsU
+              simp only at hrowsU
+              simp only [UnionAnswer, hrowsU]
+              cases lim <;> simp [Lim.toWindow, window]
+            | cons first rest =>
+              rw [hp] at hrowsU
+              simp only at hrowsU
+              simp only [UnionAnswer]
+              refine ⟨_, ?_, ?_, rfl⟩
+              · rw [← hrowsU]; exact List.mergeSort_perm _ _
+              · exact List.pairwise_mergeSort
+                  (le := leFull (order.map (·.2)) (cols.map fun (i : Nat) => (i : Int)))
+                  (leFull_trans _ _) (leFull_total _ _) _
+        · cases h
+
+
+/-! ### joins with a linked child table or a global table -/
+
+theorem joinRows_append_left (kind : JoinKind) (on : Row → Row → Bool) (n : Nat) (L1 L2 R : List Row) :
+    joinRows kind on n (L1 ++ L2) R = joinRows kind on n L1 R ++ joinRows kind on n L2 R := by
+  simp [joinRows, List.flatMap_append]
+
+theorem joinRows_congr (kind : JoinKind) (on : Row → Row → Bool) (n : Nat) : ∀ (L R R' : List Row),
+    (∀ l ∈ L, R.filter (on l) = R'.filter (on l)) → joinRows kind on n L R = joinRows kind on n L R'
+  | [], _, _, _ => rfl
+  | l :: L, R, R', h => by
+    have ih := joinRows_congr kind on n L R R' (fun x hx => h x (by simp [hx]))
+    simp only [joinRows, List.flatMap_cons] at ih ⊢
+    rw [h l (by simp), ih]
+
+/-- **A global table on the right**: every sub-table holds the whole global
+    table, so the rows of the sub-tables' joins, one after the other, are the rows
+    of the join of the union. -/
+theorem join_global_rows (kind : JoinKind) (on : Row → Row → Bool) (n : Nat) (G : List Row) :
+    ∀ Ls : List (List Row), joinRows kind on n Ls.flatten G = (Ls.map fun L => joinRows kind on n L G).flatten
+  | [] => by simp [joinRows]
+  | L :: Ls => by
+    simp only [List.flatten_cons, List.map_cons, joinRows_append_left, join_global_rows kind on n G Ls]
+
+/-- rows of different sub-tables never satisfy the ON condition -/
+def Colocated (on : Row → Row → Bool) (shards : List (List Row × List Row)) : Prop :=
+  shards.Pairwise fun p p' =>
+    (∀ l ∈ p.1, ∀ r ∈ p'.2, on l r = false) ∧ (∀ l ∈ p'.1, ∀ r ∈ p.2, on l r = false)
+
+/-- **A linked child table**: parent and child rows that join are stored in
+    sub-tables with the same index, so the rows of the per-index joins, one
+    after the other, are the rows of the join of the two unions. -/
+theorem join_colocated_rows (kind : JoinKind) (on : Row → Row → Bool) (n : Nat) :
+    ∀ shards : List (List Row × List Row), Colocated on shards →
+    joinRows kind on n (shards.map (·.1)).flatten (shards.map (·.2)).flatten =
+      (shards.map fun p => joinRows kind on n p.1 p.2).flatten
+  | [], _ => by simp [joinRows]
+  | (L, R) :: rest, hco => by
+    obtain ⟨hhead, htail⟩ := List.pairwise_cons.mp hco
+    have ih := join_colocated_rows kind on n rest htail
+    simp only [List.map_cons, List.flatten_cons, joinRows_append_left]
+    congr 1
+    · apply joinRows_congr
+      intro l hl
+      rw [List.filter_append]
+      have : (rest.map (·.2)).flatten.filter (on l) = [] := by
+        apply List.filter_eq_nil_iff.mpr
+        intro r hr
+        obtain ⟨R', hR', hrR'⟩ := List.mem_flatten.mp hr
+        obtain ⟨p', hp', rfl⟩ := List.mem_map.mp hR'
+        simp [(hhead p' hp').1 l hl r hrR']
+      rw [this, List.append_nil]
+    · rw [← ih]
+      apply joinRows_congr
+      intro l hl
+      rw [List.filter_append]
+      have : R.filter (on l) = [] := by
+        apply List.filter_eq_nil_iff.mpr
+        intro r hr
+        obtain ⟨L', hL', hlL'⟩ := List.mem_flatten.mp hl
+        obtain ⟨p', hp', rfl⟩ := List.mem_map.mp hL'
+        simp [(hhead p' hp').2 l hlL' r hr]
+      rw [this, List.nil_append]
+
+/-- rows are stored where a placement function of their sharding key puts them, and the ON
+    condition implies equal keys: the sub-tables are co-located -/
+theorem colocated_of_place (on : Row → Row → Bool) (place : Row → Int)
+    (shards : List (Int × List Row × List Row)) (hnd : (shards.map (·.1)).Nodup)
+    (hL : ∀ s ∈ shards, ∀ l ∈ s.2.1, place l = s.1) (hR : ∀ s ∈ shards, ∀ r ∈ s.2.2, place r = s.1)
+    (hon : ∀ l r, on l r = true → place l = place r) : Colocated on (shards.map (·.2)) := by
+  simp only [Colocated, List.pairwise_map]
+  have hnd' : shards.Pairwise (fun a b => a.1 ≠ b.1) := by
+    have := hnd
+    simp only [List.Nodup, List.pairwise_map] at this
+    exact this
+  refine hnd'.imp_of_mem ?_
+  intro a b ha hb hab
+  constructor
+  · intro l hl r hr
+    cases h : on l r
+    · rfl
+    · exfalso
+      apply hab
+      rw [← hL a ha l hl, ← hR b hb r hr]
+      exact hon l r h
+  · intro l hl r hr
+    cases h : on l r
+    · rfl
+    · exfalso
+      apply hab
+      rw [← hL b hb l hl, ← hR a ha r hr]
+      exact (hon l r h).symm
+
+theorem joinOn_key (withO : Bool) (l r : Row) (h : joinOn withO l r = true) : l.getD 0 .null = r.getD 0 .null := by
+  simp only [joinOn, Bool.and_eq_true, bne_iff_ne, beq_iff_eq] at h
+  exact h.1.2
+
+theorem typedRow_append {sL sR : List Ty} {l r : Row} (hl : TypedRow sL l) (hr : TypedRow sR r) :
+    TypedRow (sL ++ sR) (l ++ r) := by
+  refine ⟨by simp [hl.len, hr.len], ?_⟩
+  intro i t hi
+  by_cases h : i < sL.length
+  · rw [List.getElem?_append_left h] at hi
+    have := hl.ok i t hi
+    simpa [List.getD, List.getElem?_append_left (show i < l.length by rw [hl.len]; exact h)] using this
+  · have h' : sL.length ≤ i := by omega
+    rw [List.getElem?_append_right h'] at hi
+    have := hr.ok (i - sL.length) t hi
+    simpa [List.getD, List.getElem?_append_right (show l.length ≤ i by rw [hl.len]; exact h'), hl.len] using this
+
+theorem typedRow_nulls (sR : List Ty) : TypedRow sR (List.replicate sR.length Val.null) := by
+  refine ⟨by simp, ?_⟩
+  intro i t hi
+  have hlt : i < sR.length := (List.getElem?_eq_some_iff.mp hi).1
+  simp [List.getD, hlt, conforms]
+
+theorem joinRows_typed {sL sR : List Ty} (kind : JoinKind) (on : Row → Row → Bool) (L R : List Row)
+    (hL : TypedRows sL L) (hR : TypedRows sR R) : TypedRows (sL ++ sR) (joinRows kind on sR.length L R) := by
+  intro x hx
+  simp only [joinRows, List.mem_flatMap] at hx
+  obtain ⟨l, hl, hx⟩ := hx
+  cases kind with
+  | inner =>
+    simp only [List.mem_map, List.mem_filter] at hx
+    obtain ⟨r, ⟨hr, _⟩, rfl⟩ := hx
+    exact typedRow_append (hL l hl) (hR r hr)
+  | left =>
+    simp only at hx
+    split at hx
+    · simp only [List.mem_singleton] at hx
+      subst hx
+      exact typedRow_append (hL l hl) (typedRow_nulls sR)
+    · simp only [List.mem_map, List.mem_filter] at hx
+      obtain ⟨r, ⟨hr, _⟩, rfl⟩ := hx
+      exact typedRow_append (hL l hl) (hR r hr)
+
+/-- **JOIN with a linked child table** (`a [INNER | LEFT] JOIN b ON …`, the rows of
+    the two tables that satisfy ON live in sub-tables with the same index —
+    `colocated_of_place`: both tables are placed by the same function of the
+    sharding key and ON contains the equality of the keys): for a statement of
+    the proved class over the columns of both tables, a result of the proxy is
+    an answer of the statement on the join of the two unions. -/
+theorem join_linked_correct (schemaL schemaR : List Ty) (kind : JoinKind) (on : Row → Row → Bool)
+    (q : Query) (cq : CQ) (shards : List (List Row × List Row)) (res : Result)
+    (hcq : compile (schemaL ++ schemaR) q = some cq) (hsup : Supported (schemaL ++ schemaR) q = true)
+    (hL : ∀ p ∈ shards, TypedRows schemaL p.1) (hR : ∀ p ∈ shards, TypedRows schemaR p.2)
+    (hco : Colocated on shards)
+    (hkey : KeyInj cq (joinRows kind on schemaR.length (shards.map (·.1)).flatten (shards.map (·.2)).flatten))
+    (hrow : VisKeyInj cq (joinRows kind on schemaR.length (shards.map (·.1)).flatten (shards.map (·.2)).flatten))
+    (hsub : DistinctLimitInj cq (joinRows kind on schemaR.length (shards.map (·.1)).flatten (shards.map (·.2)).flatten))
+    (h : executeJoin schemaL schemaR kind on q shards = .ok res) :
+    Answer cq (joinRows kind on schemaR.length (shards.map (·.1)).flatten (shards.map (·.2)).flatten) res.rows := by
+  rw [join_colocated_rows kind on schemaR.length shards hco] at hkey hrow hsub ⊢
+  refine C02_select_correct_partial (schemaL ++ schemaR) q cq _ res hcq hsup ?_ hkey hrow hsub h
+  intro t ht
+  obtain ⟨p, hp, rfl⟩ := List.mem_map.mp ht
+  exact joinRows_typed kind on p.1 p.2 (hL p hp) (hR p hp)
+
+/-- **JOIN with a global table on the right** (`a [INNER | LEFT] JOIN g ON …`, any ON
+    condition): every sub-table joins its rows with the whole global table. -/
+theorem join_global_correct (schemaL schemaR : List Ty) (kind : JoinKind) (on : Row → Row → Bool)
+    (q : Query) (cq : CQ) (Ls : List (List Row)) (G : List Row) (res : Result)
+    (hcq : compile (schemaL ++ schemaR) q = some cq) (hsup : Supported (schemaL ++ schemaR) q = true)
+    (hL : ∀ L ∈ Ls, TypedRows schemaL L) (hG : TypedRows schemaR G)
+    (hkey : KeyInj cq (joinRows kind on schemaR.length Ls.flatten G))
+    (hrow : VisKeyInj cq (joinRows kind on schemaR.length Ls.flatten G))
+    (hsub : DistinctLimitInj cq (joinRows kind on schemaR.length Ls.flatten G))
+    (h : executeJoin schemaL schemaR kind on q (Ls.map fun L => (L, G)) = .ok res) :
+    Answer cq (joinRows kind on schemaR.length Ls.flatten G) res.rows := by
+  rw [join_global_rows kind on schemaR.length G Ls] at hkey hrow hsub ⊢
+  simp only [executeJoin, List.map_map] at h
+  refine C02_select_correct_partial (schemaL ++ schemaR) q cq _ res hcq hsup ?_ hkey hrow hsub h
+  intro t ht
+  obtain ⟨L, hLm, rfl⟩ := List.mem_map.mp ht
+  exact joinRows_typed kind on L G (hL L hLm) hG
 
 
 /-! ### the core theorems under their names (statements as in the lemma files) -/
@@ -1477,12 +3946,13 @@ theorem digitsOf_length (n : Nat) (h : n < 10 ^ 19) : (digitsOf n).length ≤ 19
   simp only [digitsOf, List.length_map]
   exact (Nat.length_toDigits_le_iff (by decide) (by decide)).mpr h
 
-/-- a GROUP BY key value the proxy can hold: NULL, a BIGINT, a string shorter than 2^64 bytes -/
+/-- a GROUP BY key value the proxy can hold: NULL, a BIGINT, a string shorter than 2^64 bytes,
+    a DECIMAL within MySQL's limits (65 digits, scale ≤ 30) -/
 def keyValOK : Val → Prop
   | .null => True
   | .int i => i.natAbs < 10 ^ 19
   | .str b => b.length < 256 ^ 8
-  | .dec _ _ => False
+  | .dec u s => u.natAbs < 10 ^ 65 ∧ s ≤ 30
 
 theorem shortText_of_keyValOK (v : Val) (h : keyValOK v) : ShortText v := by
   cases v with
@@ -1495,13 +3965,31 @@ theorem shortText_of_keyValOK (v : Val) (h : keyValOK v) : ShortText v := by
     · simp only [List.length_cons]; omega
     · omega
   | str b => exact h
-  | dec u s => exact absurd h (by simp [keyValOK])
+  | dec u s =>
+    simp only [keyValOK] at h
+    have := decText_length u s h.1 h.2
+    simp only [ShortText, formatValue]
+    omega
 
-/-- **On typed BIGINT / string GROUP BY columns the key encoding is injective**:
-    the hypothesis `KeyInj` of the assembled theorem holds for every table
-    whose GROUP BY columns are BIGINT or character columns. -/
+/-- values of one column with the same key text are equal -/
+theorem keyText_inj_of_conforms (t : Ty) (x y : Val) (c1 : conforms t x = true) (c2 : conforms t y = true)
+    (h : keyText x = keyText y) : x = y := by
+  cases t with
+  | int =>
+    cases x <;> cases y <;> simp_all [conforms, hasTy, Ty.vty, keyText, formatValue]
+    exact intText_inj _ _ h
+  | str =>
+    cases x <;> cases y <;> simp_all [conforms, hasTy, Ty.vty, keyText, formatValue]
+  | dec s =>
+    cases x <;> cases y <;> simp_all [conforms, hasTy, Ty.vty, keyText, formatValue]
+    exact decText_inj _ _ _ h
+
+/-- **On typed GROUP BY columns the key encoding is injective**: the hypothesis
+    `KeyInj` of the assembled theorem holds for every table whose GROUP BY
+    columns are BIGINT, DECIMAL or character columns (values within the bounds
+    `keyValOK`). -/
 theorem keyInj_of_typed (schema : List Ty) (g : List Nat) (rows : List Row) (ht : TypedRows schema rows)
-    (hg : ∀ c ∈ g, schema[c]? = some .int ∨ schema[c]? = some .str)
+    (hg : ∀ c ∈ g, c < schema.length)
     (hb : ∀ r ∈ rows, ∀ c ∈ g, keyValOK (r.getD c .null)) :
     ∀ r ∈ rows, ∀ r' ∈ rows, generateMapKey (groupKey g r) = generateMapKey (groupKey g r') →
       groupKey g r = groupKey g r' := by
@@ -1517,26 +4005,14 @@ theorem keyInj_of_typed (schema : List Ty) (g : List Nat) (rows : List Row) (ht 
     simp only [groupKey, List.zip_map', List.mem_map] at hp
     obtain ⟨c, hc, rfl⟩ := hp
     simp only
-    have t1 := (ht r hr).ok c
-    have t2 := (ht r' hr').ok c
-    rcases hg c hc with hs | hs
-    · have c1 := t1 _ hs
-      have c2 := t2 _ hs
-      generalize r.getD c .null = x at c1 ⊢
-      generalize r'.getD c .null = y at c2 ⊢
-      cases x <;> cases y <;> simp_all [conforms, hasTy, Ty.vty, keyText, formatValue]
-      exact intText_inj _ _
-    · have c1 := t1 _ hs
-      have c2 := t2 _ hs
-      generalize r.getD c .null = x at c1 ⊢
-      generalize r'.getD c .null = y at c2 ⊢
-      cases x <;> cases y <;> simp_all [conforms, hasTy, Ty.vty, keyText, formatValue]
+    have hlt := hg c hc
+    have hs : schema[c]? = some (schema[c]'hlt) := List.getElem?_eq_getElem hlt
+    exact keyText_inj_of_conforms _ _ _ ((ht r hr).ok c _ hs) ((ht r' hr').ok c _ hs)
 
-
-/-- the same for the row key of SELECT DISTINCT over BIGINT / character columns -/
+/-- the same for the row key of SELECT DISTINCT over plain columns -/
 theorem rowKeyInj_of_typed (schema : List Ty) (cq : CQ) (cols : List Nat) (rows : List Row)
     (hitems : cq.items = cols.map Item.col) (ht : TypedRows schema rows)
-    (hg : ∀ c ∈ cols, schema[c]? = some .int ∨ schema[c]? = some .str)
+    (hg : ∀ c ∈ cols, c < schema.length)
     (hb : ∀ r ∈ rows, ∀ c ∈ cols, keyValOK (r.getD c .null)) : RowKeyInj cq rows := by
   intro _ r hr r' hr' h
   have e : ∀ x : Row, fullRow cq.items [x] = groupKey cols x := by
@@ -1544,6 +4020,174 @@ theorem rowKeyInj_of_typed (schema : List Ty) (cq : CQ) (cols : List Nat) (rows 
     simp [hitems, fullRow, groupKey, List.map_map, Function.comp_def, evalItem]
   rw [e, e] at h ⊢
   exact keyInj_of_typed schema cols rows ht hg hb r hr r' hr' h
+
+/-! ### the DISTINCT row key is injective on typed rows (aggregates included) -/
+
+/-- the column type of the values of a select item -/
+def itemTyOf (schema : List Ty) : Item → Option Ty
+  | .col c => schema[c]?
+  | .const _ => some .int
+  | .agg .count _ _ => some .int
+  | .agg .sum (some c) _ =>
+    match schema[c]? with
+    | some .int => some (.dec 0)
+    | some (.dec s) => some (.dec s)
+    | _ => none
+  | .agg .sum none _ => none
+  | .agg _ (some c) _ => schema[c]?
+  | .agg _ none _ => none
+
+theorem aggArgs_typed' {schema : List Ty} {grp : List Row} (hg : TypedRows schema grp) (c : Nat) (d : Bool)
+    (hc : c < schema.length) : ∀ v ∈ aggArgs (some c) d grp, hasTy (argTy schema (some c)) v = true := by
+  intro v hv
+  have hsub : v ∈ aggArgs (some c) false grp := by
+    cases d with
+    | false => exact hv
+    | true =>
+      simp only [aggArgs, if_true] at hv
+      have := (mem_dedup _ _).mp hv
+      simpa [aggArgs] using this
+  exact aggArgs_typed hg (some c) (fun c' h => by cases h; exact hc) v hsub
+
+/-- the value of a select item on a group of typed rows is NULL or of the item's type -/
+theorem evalItem_conforms (schema : List Ty) (G : List Row) (hG : TypedRows schema G) :
+    ∀ (it : Item) (t : Ty), itemTyOf schema it = some t → conforms t (evalItem G it) = true := by
+  intro it t ht
+  cases it with
+  | col c =>
+    simp only [itemTyOf] at ht
+    cases G with
+    | nil => simp [evalItem, conforms]
+    | cons r rs => exact (hG r (by simp)).ok c t ht
+  | const i =>
+    simp only [itemTyOf, Option.some.injEq] at ht
+    subst ht
+    simp [evalItem, conforms, hasTy, Ty.vty]
+  | agg k arg d =>
+    cases k with
+    | count =>
+      simp only [itemTyOf, Option.some.injEq] at ht
+      subst ht
+      simp [evalItem, aggOf, conforms, hasTy, Ty.vty]
+    | sum =>
+      cases arg with
+      | none => simp [itemTyOf] at ht
+      | some c =>
+        simp only [itemTyOf] at ht
+        cases hs : schema[c]? with
+        | none => rw [hs] at ht; cases ht
+        | some tc =>
+          have hc : c < schema.length := (List.getElem?_eq_some_iff.mp hs).1
+          have hargs := aggArgs_typed' hG c d hc
+          simp only [argTy, hs] at hargs
+          simp only [evalItem]
+          cases hl : aggArgs (some c) d G with
+          | nil => simp [aggOf, conforms]
+          | cons v vs =>
+            rw [hl] at hargs
+            cases tc with
+            | str => rw [hs] at ht; cases ht
+            | int =>
+              rw [hs] at ht
+              simp only [Option.some.injEq] at ht
+              subst ht
+              rw [aggOf_sum_typed (t := .int) (by simp) v vs hargs]
+              simp [conforms, hasTy, Ty.vty, VTy.scale]
+            | dec s =>
+              rw [hs] at ht
+              simp only [Option.some.injEq] at ht
+              subst ht
+              rw [aggOf_sum_typed (t := .dec s) (by simp) v vs hargs]
+              simp [conforms, hasTy, Ty.vty, VTy.scale]
+    | max =>
+      cases arg with
+      | none => simp [itemTyOf] at ht
+      | some c =>
+        simp only [itemTyOf] at ht
+        have hc : c < schema.length := (List.getElem?_eq_some_iff.mp ht).1
+        have hargs := aggArgs_typed' hG c d hc
+        simp only [argTy, ht] at hargs
+        simp only [evalItem]
+        cases hl : aggArgs (some c) d G with
+        | nil => simp [aggOf, conforms]
+        | cons v vs =>
+          rw [hl] at hargs
+          simp only [aggOf, conforms, Bool.or_eq_true]
+          exact Or.inr (foldl_maxVal_typed vs v (hargs v (by simp)) (fun w hw => hargs w (by simp [hw])))
+    | min =>
+      cases arg with
+      | none => simp [itemTyOf] at ht
+      | some c =>
+        simp only [itemTyOf] at ht
+        have hc : c < schema.length := (List.getElem?_eq_some_iff.mp ht).1
+        have hargs := aggArgs_typed' hG c d hc
+        simp only [argTy, ht] at hargs
+        simp only [evalItem]
+        cases hl : aggArgs (some c) d G with
+        | nil => simp [aggOf, conforms]
+        | cons v vs =>
+          rw [hl] at hargs
+          simp only [aggOf, conforms, Bool.or_eq_true]
+          exact Or.inr (foldl_minVal_typed vs v (hargs v (by simp)) (fun w hw => hargs w (by simp [hw])))
+
+theorem typedRows_of_group (schema : List Ty) (cq : CQ) (rows : List Row) (ht : TypedRows schema rows) :
+    ∀ G ∈ groupsOf cq rows, TypedRows schema G := by
+  intro G hG
+  simp only [groupsOf] at hG
+  split at hG
+  · obtain ⟨r, hr, rfl⟩ := List.mem_map.mp hG
+    intro x hx
+    simp only [List.mem_singleton] at hx
+    rw [hx]
+    exact ht r hr
+  · split at hG
+    · simp only [List.mem_singleton] at hG
+      subst hG
+      exact ht
+    · simp only [groupRows, List.mem_map] at hG
+      obtain ⟨k, _, rfl⟩ := hG
+      exact typedRows_filter rows _ ht
+
+/-- **On typed tables the DISTINCT row key is injective**, aggregate values
+    included: the hypothesis `VisKeyInj` of the assembled theorem holds whenever
+    every select item has a type (`itemTyOf`: columns, COUNT, SUM of numeric
+    columns, MAX / MIN) and the values of the rows before DISTINCT are within the
+    bounds `keyValOK`. -/
+theorem visKeyInj_of_typed (schema : List Ty) (cq : CQ) (rows : List Row) (ht : TypedRows schema rows)
+    (hitems : ∀ it ∈ cq.items, (itemTyOf schema it).isSome = true)
+    (hb : ∀ G ∈ groupsOf cq rows, ∀ v ∈ (outOf cq G).vis, keyValOK v) : VisKeyInj cq rows := by
+  intro _ G hG G' hG' h
+  have tG := typedRows_of_group schema cq rows ht G hG
+  have tG' := typedRows_of_group schema cq rows ht G' hG'
+  apply generateMapKey_inj_of_text_inj _ _ _ _ _ h
+  · intro v hv; exact shortText_of_keyValOK _ (hb G hG v hv)
+  · intro v hv; exact shortText_of_keyValOK _ (hb G' hG' v hv)
+  · intro pr hp
+    simp only [outOf, List.zip_map', List.mem_map] at hp
+    obtain ⟨it, hit, rfl⟩ := hp
+    simp only
+    obtain ⟨t, ht'⟩ := Option.isSome_iff_exists.mp (hitems it hit)
+    exact keyText_inj_of_conforms t _ _ (evalItem_conforms schema G tG it t ht')
+      (evalItem_conforms schema G' tG' it t ht')
+
+
+/-- the same for the rows computed from parts of the tables (`DistinctLimitInj`) -/
+theorem subVisKeyInj_of_typed (schema : List Ty) (cq : CQ) (rows : List Row) (ht : TypedRows schema rows)
+    (hitems : ∀ it ∈ cq.items, (itemTyOf schema it).isSome = true)
+    (hb : ∀ X : List Row, X.Sublist rows → ∀ v ∈ (outOf cq X).vis, keyValOK v) : SubVisKeyInj cq rows := by
+  intro X X' hX hX' h
+  have tX : TypedRows schema X := fun r hr => ht r (hX.subset hr)
+  have tX' : TypedRows schema X' := fun r hr => ht r (hX'.subset hr)
+  apply generateMapKey_inj_of_text_inj _ _ _ _ _ h
+  · intro v hv; exact shortText_of_keyValOK _ (hb X hX v hv)
+  · intro v hv; exact shortText_of_keyValOK _ (hb X' hX' v hv)
+  · intro pr hp
+    simp only [outOf, List.zip_map', List.mem_map] at hp
+    obtain ⟨it, hit, rfl⟩ := hp
+    simp only
+    obtain ⟨t, ht'⟩ := Option.isSome_iff_exists.mp (hitems it hit)
+    exact keyText_inj_of_conforms t _ _ (evalItem_conforms schema X tX it t ht')
+      (evalItem_conforms schema X' tX' it t ht')
 
 /-! ### non-vacuity -/
 
@@ -1622,5 +4266,116 @@ example : ∀ r ∈ exTables.flatten, ∀ c ∈ [3], keyValOK (r.getD c .null) :
   simp only [exTables, List.flatten_cons, List.flatten_nil, List.append_nil, List.cons_append, List.nil_append,
     List.mem_cons, List.not_mem_nil, or_false] at hr
   rcases hr with rfl | rfl | rfl | rfl <;> simp [keyValOK]
+
+/-- SELECT s, COUNT(*) FROM t GROUP BY s ORDER BY s DESC LIMIT 1, 1   (the sub-tables get LIMIT 2) -/
+def exGroupLimit : Query :=
+  { distinct := false,
+    fields := [{ expr := .col 3, asName := none }, { expr := .agg .count none false, asName := none }],
+    groupBy := some [.name 3], orderBy := [(.name 3, true)], limit := .offCount 1 1 }
+
+/-- SELECT DISTINCT COUNT(*) AS x100 FROM t GROUP BY s ORDER BY x100 -/
+def exDistinctGroup : Query :=
+  { distinct := true, fields := [{ expr := .agg .count none false, asName := some 100 }],
+    groupBy := some [.name 3], orderBy := [(.name 100, false)], limit := .none }
+
+/-- SELECT DISTINCT COUNT(*), MAX(a) FROM t LIMIT 1 -/
+def exDistinctAgg : Query :=
+  { distinct := true,
+    fields := [{ expr := .agg .count none false, asName := none }, { expr := .agg .max (some 2) false, asName := none }],
+    groupBy := none, orderBy := [], limit := .count 1 }
+
+example : Supported exSchema exGroupLimit = true := by decide
+example : Supported exSchema exDistinctGroup = true := by decide
+example : Supported exSchema exDistinctAgg = true := by decide
+
+/-- the per-table LIMIT is kept for `exGroupLimit` (`merge_group_limit` is the case that applies) -/
+example : (match rewrite exGroupLimit with | .ok p => p.shardQ.limit | _ => .none) = .count 2 := by decide
+
+/-- SELECT DISTINCT COUNT(*) FROM t GROUP BY s -/
+def exDistinctGroup2 : Query :=
+  { distinct := true, fields := [{ expr := .agg .count none false, asName := none }],
+    groupBy := some [.name 3], orderBy := [], limit := .none }
+
+example : Supported exSchema exDistinctGroup2 = true := by decide
+
+/-- the groups a (2 rows), NULL (1), 'NULL' (1): DISTINCT keeps one of the two rows `1` -/
+example : executeIn exSchema exDistinctGroup2 exTables =
+    .ok { nfields := 1, rows := [[.int 2], [.int 1]] } := by decide
+
+/-! ### non-vacuity of `union_correct` -/
+
+def exCq2 : CQ :=
+  { items := [.col 3, .agg .count none false, .agg .sum (some 2) false], keys := [], group := some [3],
+    distinct := false, limit := none }
+
+theorem exCq2_eq : compile exSchema exGroup2 = some exCq2 := rfl
+
+theorem exTables_typed : ∀ t ∈ exTables, TypedRows exSchema t := by
+  intro t ht r hr
+  simp only [exTables, List.mem_cons, List.not_mem_nil, or_false] at ht
+  rcases ht with rfl | rfl <;>
+    (simp only [List.mem_cons, List.not_mem_nil, or_false] at hr
+     rcases hr with rfl | rfl <;>
+       (refine ⟨rfl, ?_⟩
+        intro i t' hi
+        match i, hi with
+        | 0, hi | 1, hi | 2, hi | 3, hi | 4, hi | 5, hi =>
+          simp [exSchema] at hi; subst hi; decide
+        | n + 6, hi => simp [exSchema] at hi))
+
+/-- the hypotheses of `union_correct` hold for (exGroup2 on two sub-tables) UNION (exGroup2 routed to none) -/
+example : AllSel exSchema [(exGroup2, exTables), (exGroup2, [])] [exCq2, exCq2] := by
+  refine ⟨⟨exCq2_eq, by decide, exTables_typed, ?_, ?_, ?_, ?_⟩, ⟨exCq2_eq, by decide, ?_, ?_, ?_, ?_, ?_⟩, trivial⟩
+  · intro g hg; cases hg; decide
+  · intro hd; cases hd
+  · intro hd; cases hd
+  · intro h; cases h
+  · intro t ht; cases ht
+  · intro g hg r hr; cases hr
+  · intro hd; cases hd
+  · intro hd; cases hd
+  · intro _; decide
+
+/-- (exGroup2) UNION (exGroup2): the second copy adds nothing -/
+example : ∃ r, executeUnion exSchema [(exGroup2, exTables), (exGroup2, exTables)] [true] [] .none = .ok r ∧
+    r.rows.length = 3 := ⟨_, rfl, rfl⟩
+
+/-! ### non-vacuity of the join theorems -/
+
+/-- SELECT a.s, COUNT(*) AS x100 FROM p a JOIN c b ON a.k = b.k GROUP BY a.s ORDER BY a.s LIMIT 2
+    (columns 0–5: a, 6–11: b) -/
+def exJoin : Query :=
+  { distinct := false,
+    fields := [{ expr := .col 3, asName := none }, { expr := .agg .count none false, asName := some 100 }],
+    groupBy := some [.name 3], orderBy := [(.name 3, false)], limit := .count 2, qualified := true }
+
+example : Supported (exSchema ++ exSchema) exJoin = true := by decide
+
+/-- a qualified GROUP BY column is added to the select list although it is selected -/
+example : (match rewrite exJoin with | .ok p => p.shardQ.fields.length | _ => 0) = 4 := by decide
+
+/-- parent and child rows with the keys 4 and 8 in the first, 1 and 5 in the second sub-table -/
+def exShards : List (List Row × List Row) :=
+  [(exTables.getD 0 [], [[.int 4, .int 0, .int 1, .str [120], .null, .null]]),
+   (exTables.getD 1 [], [[.int 1, .int 0, .int 2, .str [121], .null, .null], [.int 1, .int 7, .int 3, .null, .null, .null]])]
+
+example : Colocated (joinOn false) exShards := by
+  simp only [Colocated, exShards, List.pairwise_cons]
+  decide
+
+/-- SELECT DISTINCT s, COUNT(*) FROM t GROUP BY s ORDER BY s LIMIT 2   (DISTINCT with the per-table LIMIT kept) -/
+def exDistinctGroupLimit : Query :=
+  { distinct := true,
+    fields := [{ expr := .col 3, asName := none }, { expr := .agg .count none false, asName := none }],
+    groupBy := some [.name 3], orderBy := [(.name 3, false)], limit := .count 2 }
+
+/-- SELECT DISTINCT a.s FROM p a JOIN c b ON … ORDER BY a.s   (the qualified ORDER BY column becomes a hidden copy) -/
+def exJoinDistinct : Query :=
+  { distinct := true, fields := [{ expr := .col 3, asName := none }], groupBy := none,
+    orderBy := [(.name 3, true)], limit := .none, qualified := true }
+
+example : Supported exSchema exDistinctGroupLimit = true := by decide
+example : Supported (exSchema ++ exSchema) exJoinDistinct = true := by decide
+example : (match rewrite exJoinDistinct with | .ok p => p.shardQ.fields.length | _ => 0) = 2 := by decide
 
 end GaeaVerif.C02
